@@ -1,2 +1,1571 @@
-(* Proofs for C05. *)
-From WI Require Import Lib.Base Lib.Info Model.Routes.
+(* Proofs for C05: trial order of parseDERData, PEM label route, base64 route, name and
+   stdin independence of the dispatcher, refutations of the unrepaired code. *)
+From WI Require Import Lib.Base Lib.Info Lib.Strings Model.Base64 Model.Dispatch Model.Render Model.Routes.
+From WI Require Import Model.Pem.
+From WI Require Proofs.Base64 Proofs.Dispatch Proofs.Pem.
+From Coq Require Import ZifyN ZifyNat ZifyBool.
+Open Scope N_scope.
+
+(* ====================================================================== *)
+(* A. the schema matcher                                                   *)
+(* ====================================================================== *)
+
+Lemma parse_field_eq : forall s opt expl bs,
+  parse_field s opt expl bs =
+  match locate s opt expl bs with
+  | EFail => None
+  | ESkip => Some bs
+  | EIn inner rest =>
+      match s with
+      | SInt => if int64_ok inner then Some rest else None
+      | SBigInt => if int_ok inner then Some rest else None
+      | SOctets => Some rest
+      | SRaw => Some rest
+      | SBits => if bits_ok inner then Some rest else None
+      | SOid => if oid_ok inner then Some rest else None
+      | SSeq fs => match parse_fields fs inner with Some _ => Some rest | None => None end
+      | SSeqOf e =>
+          match utype e with
+          | (any, ut, uc) =>
+              if seqof_scan any ut uc (length inner) inner then
+                seqof_elems (parse_field e false None) rest (length inner) inner
+              else None
+          end
+      end
+  end.
+Proof. destruct s; reflexivity. Qed.
+
+Lemma parse_fields_cons : forall s o e r bs,
+  parse_fields (FCons s o e r) bs =
+  match parse_field s o e bs with Some bs' => parse_fields r bs' | None => None end.
+Proof. reflexivity. Qed.
+
+Lemma seqof_elems_result : forall pf rest fuel l r,
+  seqof_elems pf rest fuel l = Some r -> r = rest.
+Proof.
+  induction fuel as [|f IH]; intros l r H; destruct l as [|b l]; cbn [seqof_elems] in H.
+  - now inversion H.
+  - discriminate.
+  - now inversion H.
+  - destruct (pf (b :: l)) as [l'|]; [|discriminate]. eapply IH; eauto.
+Qed.
+
+(* the tag test of parseField for a required, untagged field *)
+Definition tag_ok (s : schema) (bs : bytes) : bool :=
+  match parse_header bs with
+  | Some (h, _) =>
+      match utype s with
+      | (any, ut, uc) => any || ((h_class h =? 0) && (h_tag h =? ut) && Bool.eqb (h_comp h) uc)
+      end
+  | None => false
+  end.
+
+(* where a required, untagged field starts and ends, and that its tag was right *)
+Lemma locate_required : forall s bs inner rest,
+  locate s false None bs = EIn inner rest ->
+  tag_ok s bs = true /\ inner = content bs /\ rest = next bs.
+Proof.
+  intros s bs inner rest H. unfold locate in H.
+  destruct bs as [|b bs']; [discriminate|].
+  unfold unwrap in H. unfold tag_ok, content, next.
+  destruct (parse_header (b :: bs')) as [[h after]|]; [|discriminate].
+  destruct (utype s) as [[any ut] uc]. unfold enter in H.
+  destruct any; cbn [negb andb orb] in *.
+  - destruct (N.of_nat (length after) <? h_len h); [discriminate|]. inversion H; subst. auto.
+  - destruct (negb (h_class h =? 0) || negb (h_tag h =? ut) || negb (Bool.eqb (h_comp h) uc)) eqn:E; [discriminate|].
+    destruct (N.of_nat (length after) <? h_len h); [discriminate|]. inversion H; subst.
+    apply orb_false_iff in E as [E E3]. apply orb_false_iff in E as [E1 E2].
+    apply negb_false_iff in E1, E2, E3. rewrite E1, E2, E3. auto.
+Qed.
+
+Lemma locate_required_noskip : forall s bs, locate s false None bs <> ESkip.
+Proof.
+  intros s bs. unfold locate. destruct bs as [|b bs']; [discriminate|].
+  unfold unwrap. destruct (parse_header (b :: bs')) as [[h after]|]; [|discriminate].
+  destruct (utype s) as [[any ut] uc]. unfold enter.
+  destruct (_ || _); [discriminate|]. destruct (_ <? _); discriminate.
+Qed.
+
+Lemma req_field : forall s bs r,
+  parse_field s false None bs = Some r -> tag_ok s bs = true /\ r = next bs.
+Proof.
+  intros s bs r H. rewrite parse_field_eq in H.
+  destruct (locate s false None bs) as [| |inner rest] eqn:E; [discriminate| |].
+  - exfalso. eapply locate_required_noskip; eauto.
+  - apply locate_required in E as [Ht [_ Hr]]. split; [assumption|]. subst rest.
+    destruct s.
+    + destruct (int64_ok inner); now inversion H.
+    + destruct (int_ok inner); now inversion H.
+    + now inversion H.
+    + destruct (bits_ok inner); now inversion H.
+    + destruct (oid_ok inner); now inversion H.
+    + now inversion H.
+    + destruct (parse_fields fs inner); now inversion H.
+    + destruct (utype s) as [[any ut] uc].
+      destruct (seqof_scan any ut uc (length inner) inner); [|discriminate].
+      now apply seqof_elems_result in H.
+Qed.
+
+Lemma int_field : forall bs r, parse_field SInt false None bs = Some r -> int64_ok (content bs) = true.
+Proof.
+  intros bs r H. rewrite parse_field_eq in H.
+  destruct (locate SInt false None bs) as [| |inner rest] eqn:E; [discriminate| |].
+  - exfalso. eapply locate_required_noskip; eauto.
+  - apply locate_required in E as [_ [Hi _]]. subst inner.
+    destruct (int64_ok (content bs)); [reflexivity|discriminate].
+Qed.
+
+Lemma required_on_empty : forall s, parse_field s false None [] = None.
+Proof. intros s. rewrite parse_field_eq. reflexivity. Qed.
+
+(* two required fields read at the same place must expect the same universal tag *)
+Lemma tag_conflict : forall s s' bs,
+  tag_ok s bs = true -> tag_ok s' bs = true ->
+  is_raw s = false -> is_raw s' = false -> utype s = utype s'.
+Proof.
+  intros s s' bs H H' R R'. unfold tag_ok in *.
+  destruct (parse_header bs) as [[h after]|]; [|discriminate].
+  destruct s, s'; try discriminate; try reflexivity; cbn [utype orb] in *;
+    repeat match goal with
+           | H : _ && _ = true |- _ => apply andb_true_iff in H as [? ?]
+           | H : (_ =? _) = true |- _ => apply N.eqb_eq in H
+           | H : Bool.eqb _ _ = true |- _ => apply Bool.eqb_prop in H
+           end; congruence.
+Qed.
+
+(* ---- acceptance of a struct: the outer SEQUENCE, then its fields ---- *)
+Lemma accepts_seq : forall fs d,
+  accepts (SSeq fs) d =
+  match seq_inner d with
+  | Some inner => match parse_fields fs inner with Some _ => true | None => false end
+  | None => false
+  end.
+Proof.
+  intros fs d. unfold accepts, seq_inner. rewrite parse_field_eq.
+  change (locate (SSeq fs) false None d) with (locate (SSeq FNil) false None d).
+  destruct (locate (SSeq FNil) false None d) as [| |inner rest] eqn:E; [reflexivity| |].
+  - exfalso. eapply locate_required_noskip; eauto.
+  - destruct (parse_fields fs inner); reflexivity.
+Qed.
+
+Definition first_type (fs : fields) : option (bool * N * bool) :=
+  match fs with
+  | FCons s false None _ => if is_raw s then None else Some (utype s)
+  | _ => None
+  end.
+Definition second_type (fs : fields) : option (bool * N * bool) :=
+  match fs with
+  | FCons s false None r => if is_raw s then None else first_type r
+  | _ => None
+  end.
+Definition triple_eqb (x y : bool * N * bool) : bool :=
+  Bool.eqb (fst (fst x)) (fst (fst y)) && (snd (fst x) =? snd (fst y)) && Bool.eqb (snd x) (snd y).
+Definition opt_neq (a b : option (bool * N * bool)) : bool :=
+  match a with
+  | Some x => match b with Some y => negb (triple_eqb x y) | None => false end
+  | None => false
+  end.
+
+Lemma opt_neq_spec : forall a b x y, opt_neq a b = true -> a = Some x -> b = Some y -> x <> y.
+Proof.
+  intros a b x y H -> ->. cbn in H. intros E. subst y. unfold triple_eqb in H.
+  rewrite !Bool.eqb_reflx, N.eqb_refl in H. discriminate.
+Qed.
+
+(* structs whose first (or second) required fields expect different tags accept disjoint inputs *)
+Lemma first_conflict : forall fs fs' d,
+  opt_neq (first_type fs) (first_type fs') = true ->
+  accepts (SSeq fs) d = true -> accepts (SSeq fs') d = false.
+Proof.
+  intros fs fs' d Hn Ha. rewrite accepts_seq in *.
+  destruct (seq_inner d) as [inner|]; [|reflexivity].
+  destruct (parse_fields fs' inner) eqn:E'; [exfalso|reflexivity].
+  destruct (parse_fields fs inner) eqn:E; [|discriminate].
+  destruct fs as [|s [|] [|] r]; try discriminate Hn.
+  destruct fs' as [|s' [|] [|] r']; try (cbn in Hn; destruct (is_raw s); discriminate Hn).
+  cbn [first_type] in Hn.
+  destruct (is_raw s) eqn:R; [discriminate|]. destruct (is_raw s') eqn:R'; [discriminate|].
+  rewrite parse_fields_cons in E, E'.
+  destruct (parse_field s false None inner) eqn:F; [|discriminate].
+  destruct (parse_field s' false None inner) eqn:F'; [|discriminate].
+  apply req_field in F as [T _]. apply req_field in F' as [T' _].
+  eapply opt_neq_spec; eauto. eapply tag_conflict; eauto.
+Qed.
+
+Lemma second_conflict : forall fs fs' d,
+  opt_neq (second_type fs) (second_type fs') = true ->
+  accepts (SSeq fs) d = true -> accepts (SSeq fs') d = false.
+Proof.
+  intros fs fs' d Hn Ha. rewrite accepts_seq in *.
+  destruct (seq_inner d) as [inner|]; [|reflexivity].
+  destruct (parse_fields fs' inner) eqn:E'; [exfalso|reflexivity].
+  destruct (parse_fields fs inner) eqn:E; [|discriminate].
+  destruct fs as [|a [|] [|] [|s [|] [|] r]]; try discriminate Hn;
+    try (cbn in Hn; destruct (is_raw a); discriminate Hn).
+  destruct fs' as [|a' [|] [|] [|s' [|] [|] r']];
+    try (cbn in Hn; destruct (is_raw a); destruct (is_raw s); try destruct (is_raw a'); discriminate Hn).
+  cbn [second_type first_type] in Hn.
+  destruct (is_raw a) eqn:Ra; [discriminate|]. destruct (is_raw s) eqn:R; [discriminate|].
+  destruct (is_raw a') eqn:Ra'; [discriminate|]. destruct (is_raw s') eqn:R'; [discriminate|].
+  rewrite !parse_fields_cons in E, E'.
+  destruct (parse_field a false None inner) as [m|] eqn:A; [|discriminate].
+  destruct (parse_field a' false None inner) as [m'|] eqn:A'; [|discriminate].
+  apply req_field in A as [_ ->]. apply req_field in A' as [_ ->].
+  rewrite parse_fields_cons in E, E'.
+  destruct (parse_field s false None (next inner)) eqn:F; [|discriminate].
+  destruct (parse_field s' false None (next inner)) eqn:F'; [|discriminate].
+  apply req_field in F as [T _]. apply req_field in F' as [T' _].
+  eapply opt_neq_spec; eauto. eapply tag_conflict; eauto.
+Qed.
+
+(* ====================================================================== *)
+(* A2. bytes of an accepted struct: it starts with 30 and contains 02 or 06 *)
+(* ====================================================================== *)
+
+Lemma base128_go_suffix : forall left fst0 acc l v r,
+  base128_go left fst0 acc l = Some (v, r) -> exists pre, l = pre ++ r.
+Proof.
+  induction left as [|left IH]; intros fst0 acc l v r H; destruct l as [|b l]; cbn [base128_go] in H; try discriminate.
+  destruct (fst0 && (b =? 128)); [discriminate|].
+  destruct (b <? 128).
+  - destruct (2147483647 <? acc * 128 + b mod 128); [discriminate|]. inversion H; subst. now exists [b].
+  - apply IH in H as [pre ->]. now exists (b :: pre).
+Qed.
+
+Lemma len_bytes_suffix : forall n acc l v r, len_bytes n acc l = Some (v, r) -> exists pre, l = pre ++ r.
+Proof.
+  induction n as [|n IH]; intros acc l v r H; cbn [len_bytes] in H.
+  - inversion H; subst. now exists [].
+  - destruct l as [|b l]; [discriminate|]. destruct (8388608 <=? acc); [discriminate|].
+    destruct (acc * 256 + b =? 0); [discriminate|]. apply IH in H as [pre ->]. now exists (b :: pre).
+Qed.
+
+Lemma parse_len_suffix : forall l v r, parse_len l = Some (v, r) -> exists pre, l = pre ++ r.
+Proof.
+  intros l v r H. unfold parse_len in H. destruct l as [|b l]; [discriminate|].
+  destruct (b <? 128); [inversion H; subst; eexists [_]; reflexivity|].
+  destruct (b - 128 =? 0); [discriminate|].
+  destruct (len_bytes (N.to_nat (b - 128)) 0 l) as [[len r']|] eqn:E; [|discriminate].
+  destruct (len <? 128); [discriminate|]. inversion H; subst.
+  apply len_bytes_suffix in E as [pre ->]. now exists (b :: pre).
+Qed.
+
+(* the first byte of a value with a low tag number, and the rest being a suffix *)
+Lemma parse_header_first : forall b l h after, parse_header (b :: l) = Some (h, after) ->
+  (exists pre, l = pre ++ after) /\
+  (h_tag h < 31 -> h_class h = b / 64 /\ h_comp h = N.testbit b 5 /\ h_tag h = b mod 32).
+Proof.
+  intros b l h after H. unfold parse_header, parse_tag in H.
+  destruct (b mod 32 =? 31) eqn:E31.
+  - destruct (base128 l) as [[t' r']|] eqn:Eb; [|discriminate].
+    destruct (t' <? 31) eqn:Et; [discriminate|].
+    destruct (parse_len r') as [[len r2]|] eqn:El; [|discriminate]. inversion H; subst. cbn [h_tag].
+    split; [|intros Hlt; apply N.ltb_ge in Et; lia].
+    apply base128_go_suffix in Eb as [p1 ->]. apply parse_len_suffix in El as [p2 ->].
+    exists (p1 ++ p2). now rewrite app_assoc.
+  - destruct (parse_len l) as [[len r2]|] eqn:El; [|discriminate]. inversion H; subst. cbn.
+    split; [now apply parse_len_suffix in El|auto].
+Qed.
+
+Lemma byte_of_header : forall b, b < 256 -> b / 64 = 0 ->
+  b = (if N.testbit b 5 then 32 else 0) + b mod 32.
+Proof.
+  intros b Hb Hc.
+  pose proof (Proofs.Base64.forall_range
+                (fun b => negb (b / 64 =? 0) || (b =? (if N.testbit b 5 then 32 else 0) + b mod 32)) 256
+                ltac:(vm_compute; reflexivity) b Hb) as H.
+  cbv beta in H. rewrite Hc in H. cbn [N.eqb negb orb] in H. now apply N.eqb_eq in H.
+Qed.
+
+Lemma In_take : forall (A : Type) n (l : list A) x, In x (take n l) -> In x l.
+Proof.
+  induction n as [|n IH]; intros l x H; destruct l as [|y l]; cbn [take] in H; try contradiction.
+  destruct H as [->|H]; [now left|right; eauto].
+Qed.
+
+(* a required, untagged field that is not a RawValue starts with its universal tag byte *)
+Lemma field_first_byte : forall s bs r, bytes_ok bs = true -> is_raw s = false ->
+  parse_field s false None bs = Some r ->
+  exists l, bs = (match utype s with (_, ut, uc) => (if uc then 32 else 0) + ut end) :: l
+            /\ forall x, In x (content bs) -> In x l.
+Proof.
+  intros s bs r Hb Hr H. apply req_field in H as [Ht _]. unfold tag_ok in Ht. unfold content.
+  destruct bs as [|b l]; [discriminate|]. exists l.
+  destruct (parse_header (b :: l)) as [[h after]|] eqn:E; [|discriminate].
+  apply parse_header_first in E as [[pre Hpre] Hlow].
+  cbn [bytes_ok forallb] in Hb. apply andb_true_iff in Hb as [Hb256 _]. unfold byte_ok in Hb256.
+  apply N.ltb_lt in Hb256.
+  assert (Hut : match utype s with (any, ut, uc) => any = false /\ ut < 31 end).
+  { destruct s; try discriminate; cbn; split; reflexivity || lia. }
+  destruct (utype s) as [[any ut] uc]. destruct Hut as [-> Hut]. cbn [orb] in Ht.
+  apply andb_true_iff in Ht as [Ht Hc]. apply andb_true_iff in Ht as [Hcl Htag].
+  apply N.eqb_eq in Hcl, Htag. apply Bool.eqb_prop in Hc.
+  destruct (Hlow ltac:(lia)) as (H1 & H2 & H3).
+  split.
+  - f_equal. rewrite (byte_of_header b Hb256) at 1 by lia.
+    rewrite <- H2, <- H3, Hc, Htag. reflexivity.
+  - intros x Hx. apply In_take in Hx. rewrite Hpre. apply in_or_app. now right.
+Qed.
+
+Lemma bytes_ok_In : forall l, bytes_ok l = true -> forall x, In x l -> x < 256.
+Proof.
+  intros l H x Hx. unfold bytes_ok in H. rewrite forallb_forall in H. specialize (H x Hx).
+  unfold byte_ok in H. now apply N.ltb_lt.
+Qed.
+
+Lemma bytes_ok_sub : forall l l', bytes_ok l = true -> (forall x, In x l' -> In x l) -> bytes_ok l' = true.
+Proof.
+  intros l l' H Hs. unfold bytes_ok in *. apply forallb_forall. intros x Hx.
+  rewrite forallb_forall in H. apply H. now apply Hs.
+Qed.
+
+(* the children of an accepted struct are bytes of the input, which starts with 30 *)
+Lemma seq_inner_bytes : forall d inner, bytes_ok d = true -> seq_inner d = Some inner ->
+  starts_seq d = true /\ forall x, In x inner -> In x d.
+Proof.
+  intros d inner Hb H. unfold seq_inner in H.
+  destruct (locate (SSeq FNil) false None d) as [| |i r] eqn:E; try discriminate. inversion H; subst i.
+  assert (P : parse_field (SSeq FNil) false None d = Some r).
+  { rewrite parse_field_eq, E. reflexivity. }
+  apply locate_required in E as (_ & -> & _).
+  destruct (field_first_byte (SSeq FNil) d r Hb eq_refl P) as [l [-> Hin]]. cbn in *.
+  split; [reflexivity|]. intros x Hx. right. now apply Hin.
+Qed.
+
+Lemma first_field_byte_in : forall s r0 inner x, bytes_ok inner = true -> is_raw s = false ->
+  parse_fields (req s r0) inner = Some x ->
+  In (match utype s with (_, ut, uc) => (if uc then 32 else 0) + ut end) inner.
+Proof.
+  intros s r0 inner x Hb Hr H. unfold req in H. rewrite parse_fields_cons in H.
+  destruct (parse_field s false None inner) eqn:F; [|discriminate].
+  destruct (field_first_byte s inner b Hb Hr F) as [l [-> _]]. now left.
+Qed.
+
+Lemma cls_2_6 : cls 2 = cX /\ cls 6 = cX.
+Proof. split; vm_compute; reflexivity. Qed.
+
+Lemma not_text_of_byte : forall d c, In c d -> cls c = cX -> not_text d = true.
+Proof.
+  intros d c Hin Hc. unfold not_text. apply existsb_exists. exists c. split; [assumption|]. rewrite Hc. apply N.eqb_refl.
+Qed.
+
+(* every accepted object of kinds 1..6 starts with the SEQUENCE tag and contains a tag byte
+   02 (INTEGER) or 06 (OBJECT IDENTIFIER), which is not a base64 character *)
+Lemma int_first_shape : forall s1 r0 d, is_raw s1 = false -> utype s1 = (false, 2, false) ->
+  bytes_ok d = true -> accepts (SSeq (req s1 r0)) d = true ->
+  starts_seq d = true /\ not_text d = true.
+Proof.
+  intros s1 r0 d Hr Hu Hb Ha. rewrite accepts_seq in Ha.
+  destruct (seq_inner d) as [inner|] eqn:Ei; [|discriminate].
+  destruct (parse_fields (req s1 r0) inner) eqn:Ef; [|discriminate].
+  destruct (seq_inner_bytes d inner Hb Ei) as [Hs Hin]. split; [assumption|].
+  pose proof (first_field_byte_in s1 r0 inner b (bytes_ok_sub d inner Hb Hin) Hr Ef) as H2.
+  rewrite Hu in H2. cbn in H2. apply (not_text_of_byte d 2); [now apply Hin|apply cls_2_6].
+Qed.
+
+Lemma pkix_shape : forall d, bytes_ok d = true -> accepts s_pkix d = true ->
+  starts_seq d = true /\ not_text d = true.
+Proof.
+  intros d Hb Ha. unfold s_pkix in Ha. rewrite accepts_seq in Ha.
+  destruct (seq_inner d) as [inner|] eqn:Ei; [|discriminate].
+  destruct (parse_fields _ inner) eqn:Ef; [|discriminate].
+  destruct (seq_inner_bytes d inner Hb Ei) as [Hs Hin]. split; [assumption|].
+  assert (Hbi := bytes_ok_sub d inner Hb Hin).
+  unfold req in Ef at 1. rewrite parse_fields_cons in Ef.
+  destruct (parse_field s_algid false None inner) as [r|] eqn:F; [|discriminate].
+  destruct (field_first_byte s_algid inner r Hbi eq_refl F) as [l [El Hc]].
+  unfold s_algid in F. rewrite parse_field_eq in F.
+  destruct (locate (SSeq (req SOid (opt SRaw FNil))) false None inner) as [| |inner2 rest] eqn:E; try discriminate.
+  { exfalso. eapply locate_required_noskip; eauto. }
+  apply locate_required in E as (_ & -> & _).
+  destruct (parse_fields (req SOid (opt SRaw FNil)) (content inner)) eqn:F2; [|discriminate].
+  assert (Hsub : forall x, In x (content inner) -> In x inner).
+  { intros x Hx. rewrite El. right. now apply Hc. }
+  pose proof (first_field_byte_in SOid _ (content inner) b0 (bytes_ok_sub inner _ Hbi Hsub) eq_refl F2) as H6.
+  cbn in H6. apply (not_text_of_byte d 6); [now apply Hin, Hsub|apply cls_2_6].
+Qed.
+
+Lemma key_shape : forall k s d, schema_of k = Some s -> bytes_ok d = true -> accepts s d = true ->
+  starts_seq d = true /\ not_text d = true.
+Proof.
+  intros k s d Hs Hb Ha.
+  destruct k as [|[|[|[|[|[|[|k]]]]]]]; cbn in Hs; inversion Hs; subst; clear Hs.
+  - unfold s_pkcs8 in Ha. now apply (int_first_shape SInt) in Ha.
+  - now apply pkix_shape.
+  - unfold s_pkcs1pub in Ha. now apply (int_first_shape SBigInt) in Ha.
+  - unfold s_sec1 in Ha. now apply (int_first_shape SInt) in Ha.
+  - unfold s_pkcs1priv in Ha. now apply (int_first_shape SInt) in Ha.
+  - unfold s_dsapriv in Ha. now apply (int_first_shape SInt) in Ha.
+Qed.
+
+(* ====================================================================== *)
+(* A3. an accepted struct has a byte that is no hex digit among offsets 1..4 *)
+(* ====================================================================== *)
+
+Lemma parse_len_shape : forall l v r, parse_len l = Some (v, r) ->
+  exists b1 pre, l = b1 :: pre ++ r /\ (b1 < 128 -> pre = []).
+Proof.
+  intros l v r H. unfold parse_len in H. destruct l as [|b l]; [discriminate|].
+  destruct (b <? 128) eqn:Eb.
+  - inversion H; subst. exists v, []. split; [reflexivity|auto].
+  - destruct (b - 128 =? 0); [discriminate|].
+    destruct (len_bytes (N.to_nat (b - 128)) 0 l) as [[len r']|] eqn:E; [|discriminate].
+    destruct (len <? 128); [discriminate|]. inversion H; subst.
+    apply len_bytes_suffix in E as [pre ->]. exists b, pre. split; [reflexivity|].
+    intros Hlt. apply N.ltb_ge in Eb. lia.
+Qed.
+
+Lemma header_shape : forall b l h after, parse_header (b :: l) = Some (h, after) -> b mod 32 <> 31 ->
+  exists b1 pre, l = b1 :: pre ++ after /\ (b1 < 128 -> pre = []).
+Proof.
+  intros b l h after H Hb. unfold parse_header, parse_tag in H.
+  destruct (b mod 32 =? 31) eqn:E31; [apply N.eqb_eq in E31; contradiction|].
+  destruct (parse_len l) as [[len r2]|] eqn:El; [|discriminate]. inversion H; subst.
+  now apply parse_len_shape in El.
+Qed.
+
+Lemma take_cons_inv : forall (A : Type) n (l : list A) x t, take n l = x :: t ->
+  exists l', l = x :: l' /\ exists n', t = take n' l'.
+Proof.
+  intros A n l x t H. destruct n as [|n]; [discriminate|]. destruct l as [|y l]; [discriminate|].
+  cbn [take] in H. inversion H; subst. eauto.
+Qed.
+
+Lemma is_hex_high : forall b, 128 <= b -> is_hex b = false.
+Proof. intros b H. unfold is_hex. lia. Qed.
+
+Lemma hex7_at1 : forall c0 b1 x, is_hex b1 = false -> hex7 (c0 :: b1 :: x) = false.
+Proof. intros. unfold hex7. cbn [firstn forallb]. rewrite H. cbn [andb]. apply andb_false_r. Qed.
+Lemma hex7_at2 : forall c0 b1 b2 x, is_hex b2 = false -> hex7 (c0 :: b1 :: b2 :: x) = false.
+Proof. intros. unfold hex7. cbn [firstn forallb]. rewrite H. rewrite !andb_false_r. reflexivity. Qed.
+Lemma hex7_at3 : forall c0 b1 b2 b3 x, is_hex b3 = false -> hex7 (c0 :: b1 :: b2 :: b3 :: x) = false.
+Proof. intros. unfold hex7. cbn [firstn forallb]. rewrite H. rewrite !andb_false_r. reflexivity. Qed.
+Lemma hex7_at4 : forall c0 b1 b2 b3 b4 x, is_hex b4 = false -> hex7 (c0 :: b1 :: b2 :: b3 :: b4 :: x) = false.
+Proof. intros. unfold hex7. cbn [firstn forallb]. rewrite H. rewrite !andb_false_r. reflexivity. Qed.
+
+(* the outer header: 30, then either a long-form length byte or a short one followed by the children *)
+Lemma seq_outer_shape : forall d inner, bytes_ok d = true -> seq_inner d = Some inner ->
+  exists b1 x, d = 48 :: b1 :: x /\
+    (128 <= b1 \/ forall t u, inner = t :: u -> exists x', x = t :: x' /\ exists n, u = take n x').
+Proof.
+  intros d inner Hb H.
+  destruct (seq_inner_bytes d inner Hb H) as [Hs _]. unfold starts_seq in Hs.
+  destruct d as [|c l]; [discriminate|].
+  assert (c = 48). { destruct c as [|p]; [discriminate|]. do 6 (destruct p; try discriminate). reflexivity. }
+  subst c. unfold seq_inner in H.
+  destruct (locate (SSeq FNil) false None (48 :: l)) as [| |i r] eqn:E; try discriminate. inversion H; subst i.
+  apply locate_required in E as (Ht & Hi & _). unfold tag_ok in Ht. unfold content in Hi.
+  destruct (parse_header (48 :: l)) as [[h after]|] eqn:Eh; [|discriminate].
+  apply header_shape in Eh as (b1 & pre & -> & Hpre); [|discriminate].
+  exists b1, (pre ++ after). split; [reflexivity|].
+  destruct (b1 <? 128) eqn:E1; [right|left; now apply N.ltb_ge in E1].
+  apply N.ltb_lt in E1. rewrite (Hpre E1). cbn [app]. intros t u Hu. rewrite Hu in Hi.
+  symmetry in Hi. now apply take_cons_inv in Hi.
+Qed.
+
+Lemma int_first_not_hex7 : forall s1 r0 d, is_raw s1 = false -> utype s1 = (false, 2, false) ->
+  bytes_ok d = true -> accepts (SSeq (req s1 r0)) d = true -> hex7 d = false.
+Proof.
+  intros s1 r0 d Hr Hu Hb Ha. rewrite accepts_seq in Ha.
+  destruct (seq_inner d) as [inner|] eqn:Ei; [|discriminate].
+  destruct (parse_fields (req s1 r0) inner) eqn:Ef; [|discriminate].
+  destruct (seq_inner_bytes d inner Hb Ei) as [_ Hin].
+  unfold req in Ef. rewrite parse_fields_cons in Ef.
+  destruct (parse_field s1 false None inner) eqn:F; [|discriminate].
+  destruct (field_first_byte s1 inner b0 (bytes_ok_sub d inner Hb Hin) Hr F) as [l' [El _]].
+  rewrite Hu in El. cbn in El.
+  destruct (seq_outer_shape d inner Hb Ei) as (b1 & x & -> & [Hhi|Hlo]).
+  - apply hex7_at1. now apply is_hex_high.
+  - destruct (Hlo _ _ El) as (x' & -> & _). now apply hex7_at2.
+Qed.
+
+Lemma pkix_not_hex7 : forall d, bytes_ok d = true -> accepts s_pkix d = true -> hex7 d = false.
+Proof.
+  intros d Hb Ha. unfold s_pkix in Ha. rewrite accepts_seq in Ha.
+  destruct (seq_inner d) as [inner|] eqn:Ei; [|discriminate].
+  destruct (parse_fields _ inner) eqn:Ef; [|discriminate].
+  destruct (seq_inner_bytes d inner Hb Ei) as [_ Hin].
+  assert (Hbi := bytes_ok_sub d inner Hb Hin).
+  unfold req in Ef at 1. rewrite parse_fields_cons in Ef.
+  destruct (parse_field s_algid false None inner) as [r|] eqn:F; [|discriminate].
+  (* the AlgorithmIdentifier is itself an accepted struct whose first field is the OID *)
+  assert (Hacc : accepts s_algid inner = true) by (unfold accepts; now rewrite F).
+  unfold s_algid in Hacc. rewrite accepts_seq in Hacc.
+  destruct (seq_inner inner) as [inner2|] eqn:Ei2; [|discriminate].
+  destruct (parse_fields _ inner2) eqn:Ef2; [|discriminate].
+  destruct (seq_inner_bytes inner inner2 Hbi Ei2) as [_ Hin2].
+  unfold req in Ef2 at 1. rewrite parse_fields_cons in Ef2.
+  destruct (parse_field SOid false None inner2) eqn:F2; [|discriminate].
+  destruct (field_first_byte SOid inner2 b1 (bytes_ok_sub inner inner2 Hbi Hin2) eq_refl F2) as [l2 [El2 _]].
+  cbn in El2.
+  destruct (seq_outer_shape inner inner2 Hbi Ei2) as (b3 & y & Einner & Hcase).
+  destruct (seq_outer_shape d inner Hb Ei) as (c1 & x & -> & [Hhi|Hlo]).
+  { apply hex7_at1. now apply is_hex_high. }
+  destruct (Hlo _ _ Einner) as (x' & -> & n & Hy).
+  destruct Hcase as [Hhi3|Hlo3].
+  - (* inner length in long form *)
+    rewrite Hy in Einner. destruct x' as [|z x']; [destruct n; discriminate Hy|].
+    destruct n; [discriminate Hy|]. cbn [take] in Hy. inversion Hy; subst z.
+    apply hex7_at3. now apply is_hex_high.
+  - destruct (Hlo3 _ _ El2) as (y' & -> & _).
+    symmetry in Hy. apply take_cons_inv in Hy as (x'' & -> & n' & Hy').
+    symmetry in Hy'. apply take_cons_inv in Hy' as (x3 & -> & _).
+    now apply hex7_at4.
+Qed.
+
+Lemma key_not_hex7 : forall k s d, schema_of k = Some s -> bytes_ok d = true -> accepts s d = true ->
+  hex7 d = false.
+Proof.
+  intros k s d Hs Hb Ha.
+  destruct k as [|[|[|[|[|[|[|k]]]]]]]; cbn in Hs; inversion Hs; subst; clear Hs.
+  - unfold s_pkcs8 in Ha. now apply (int_first_not_hex7 SInt) in Ha.
+  - now apply pkix_not_hex7.
+  - unfold s_pkcs1pub in Ha. now apply (int_first_not_hex7 SBigInt) in Ha.
+  - unfold s_sec1 in Ha. now apply (int_first_not_hex7 SInt) in Ha.
+  - unfold s_pkcs1priv in Ha. now apply (int_first_not_hex7 SInt) in Ha.
+  - unfold s_dsapriv in Ha. now apply (int_first_not_hex7 SInt) in Ha.
+Qed.
+
+(* ====================================================================== *)
+(* B. the trial order of parseDERData                                      *)
+(* ====================================================================== *)
+
+(* pairwise exclusions that follow from the tags of the first two fields *)
+Lemma x_21 : forall d, accepts s_pkix d = true -> accepts s_pkcs8 d = false.
+Proof. intros d. apply first_conflict. reflexivity. Qed.
+Lemma x_41 : forall d, accepts s_sec1 d = true -> accepts s_pkcs8 d = false.
+Proof. intros d. apply second_conflict. reflexivity. Qed.
+Lemma x_42 : forall d, accepts s_sec1 d = true -> accepts s_pkix d = false.
+Proof. intros d. apply first_conflict. reflexivity. Qed.
+Lemma x_51 : forall d, accepts s_pkcs1priv d = true -> accepts s_pkcs8 d = false.
+Proof. intros d. apply second_conflict. reflexivity. Qed.
+Lemma x_52 : forall d, accepts s_pkcs1priv d = true -> accepts s_pkix d = false.
+Proof. intros d. apply first_conflict. reflexivity. Qed.
+Lemma x_54 : forall d, accepts s_pkcs1priv d = true -> accepts s_sec1 d = false.
+Proof. intros d. apply second_conflict. reflexivity. Qed.
+Lemma x_61 : forall d, accepts s_dsapriv d = true -> accepts s_pkcs8 d = false.
+Proof. intros d. apply second_conflict. reflexivity. Qed.
+Lemma x_62 : forall d, accepts s_dsapriv d = true -> accepts s_pkix d = false.
+Proof. intros d. apply first_conflict. reflexivity. Qed.
+Lemma x_64 : forall d, accepts s_dsapriv d = true -> accepts s_sec1 d = false.
+Proof. intros d. apply second_conflict. reflexivity. Qed.
+Lemma x_31 : forall d, accepts s_pkcs1pub d = true -> accepts s_pkcs8 d = false.
+Proof. intros d. apply second_conflict. reflexivity. Qed.
+Lemma x_32 : forall d, accepts s_pkcs1pub d = true -> accepts s_pkix d = false.
+Proof. intros d. apply first_conflict. reflexivity. Qed.
+Lemma x_34 : forall d, accepts s_pkcs1pub d = true -> accepts s_sec1 d = false.
+Proof. intros d. apply second_conflict. reflexivity. Qed.
+
+(* what the first three required fields of a struct see *)
+Lemma three_fields : forall a b c r inner x,
+  parse_fields (req a (req b (req c r))) inner = Some x ->
+  exists y, parse_field c false None (next (next inner)) = Some y.
+Proof.
+  intros a b c r inner x H. unfold req in H. rewrite parse_fields_cons in H.
+  destruct (parse_field a false None inner) eqn:A; [|discriminate]. apply req_field in A as [_ ->].
+  rewrite parse_fields_cons in H.
+  destruct (parse_field b false None (next inner)) eqn:B; [|discriminate]. apply req_field in B as [_ ->].
+  rewrite parse_fields_cons in H.
+  destruct (parse_field c false None (next (next inner))) eqn:C; [|discriminate]. eauto.
+Qed.
+
+(* a DSA private key whose q does not fit a Go int is not read as an RSA private key *)
+Lemma x_65 : forall d, side_cond 6 d = true -> accepts s_pkcs1priv d = false.
+Proof.
+  intros d Hs. unfold s_pkcs1priv. rewrite accepts_seq. unfold side_cond in Hs.
+  destruct (seq_inner d) as [inner|]; [|reflexivity].
+  destruct (parse_fields _ inner) eqn:E; [exfalso|reflexivity].
+  apply three_fields in E as [y Hy]. apply int_field in Hy.
+  unfold int64_ok in Hy. apply andb_true_iff in Hy as [_ Hy].
+  apply Nat.leb_le in Hy. apply Nat.ltb_lt in Hs. lia.
+Qed.
+
+(* an RSAPublicKey with exactly two elements is not read as a private key *)
+Lemma x_35 : forall d, side_cond 3 d = true -> accepts s_pkcs1priv d = false.
+Proof.
+  intros d Hs. unfold s_pkcs1priv. rewrite accepts_seq. unfold side_cond in Hs.
+  destruct (seq_inner d) as [inner|]; [|reflexivity].
+  destruct (parse_fields _ inner) eqn:E; [exfalso|reflexivity].
+  apply three_fields in E as [y Hy].
+  destruct (next (next inner)); [|discriminate]. now rewrite required_on_empty in Hy.
+Qed.
+Lemma x_36 : forall d, side_cond 3 d = true -> accepts s_dsapriv d = false.
+Proof.
+  intros d Hs. unfold s_dsapriv. rewrite accepts_seq. unfold side_cond in Hs.
+  destruct (seq_inner d) as [inner|]; [|reflexivity].
+  destruct (parse_fields _ inner) eqn:E; [exfalso|reflexivity].
+  apply three_fields in E as [y Hy].
+  destruct (next (next inner)); [|discriminate]. now rewrite required_on_empty in Hy.
+Qed.
+
+Lemma der_of_kind_parts : forall k d, der_of_kind k d = true ->
+  is_asn1 d = true /\ starts_seq d = true /\ not_text d = true /\ bytes_ok d = true /\
+  match k with
+  | O => True
+  | _ => exists s, schema_of k = Some s /\ accepts s d = true /\ side_cond k d = true
+  end.
+Proof.
+  intros k d H. unfold der_of_kind in H.
+  apply andb_true_iff in H as [H Hk]. apply andb_true_iff in H as [Ha Hb].
+  destruct k as [|k].
+  - apply andb_true_iff in Hk as [Hk _]. apply andb_true_iff in Hk as [Hs Hn]. repeat split; assumption.
+  - destruct (schema_of (S k)) as [s|] eqn:Es; [|discriminate].
+    apply andb_true_iff in Hk as [Hacc Hside].
+    destruct (key_shape (S k) s d Es Hb Hacc) as [Hs Hn].
+    repeat split; try assumption. eauto.
+Qed.
+
+Lemma der_of_kind_not_hex7 : forall k d, der_of_kind k d = true -> hex7 d = false.
+Proof.
+  intros k d H. unfold der_of_kind in H.
+  apply andb_true_iff in H as [H Hk]. apply andb_true_iff in H as [Ha Hb].
+  destruct k as [|k].
+  - apply andb_true_iff in Hk as [_ Hk]. now apply negb_true_iff in Hk.
+  - destruct (schema_of (S k)) as [s|] eqn:Es; [|discriminate].
+    apply andb_true_iff in Hk as [Hacc _]. eapply key_not_hex7; eauto.
+Qed.
+
+(* C05_trial_order: for a well-formed object of kind k no parser tried before k's accepts it *)
+Theorem trial_order_thm : forall L k d, (k <= 6)%nat ->
+  der_of_kind k d = true -> cert_oracle_ok L k d = true ->
+  route_der L d = parse_kind L k d.
+Proof.
+  intros L k d Hk Hd Hc. apply der_of_kind_parts in Hd as (_ & _ & _ & _ & Hs).
+  unfold route_der, trial_order. unfold cert_oracle_ok in Hc.
+  destruct k as [|k].
+  { cbn [first_kind parse_kind]. destruct (l_cert L d); [reflexivity|discriminate|discriminate]. }
+  destruct Hs as (s & Hs & Ha & Hside).
+  assert (Hcert : exists e, parse_kind L 0 d = Err e).
+  { cbn [parse_kind]. destruct (l_cert L d); try discriminate. eauto. }
+  destruct Hcert as [e He]. cbn [first_kind]. rewrite He.
+  assert (Hrej : forall i s', schema_of i = Some s' -> accepts s' d = false -> i <> O ->
+                              parse_kind L i d = Err "asn1.Unmarshal").
+  { intros i s' Hi Hr Hn. destruct i; [congruence|]. unfold parse_kind. now rewrite Hi, Hr. }
+  assert (Hacc : parse_kind L (S k) d = Ok (l_desc L (S k) d)).
+  { unfold parse_kind. now rewrite Hs, Ha. }
+  destruct k as [|[|[|[|[|[|k]]]]]]; try lia; cbn [schema_of] in Hs; inversion Hs; subst s; clear Hs.
+  - (* PKCS#8 *) now rewrite Hacc.
+  - (* PKIX *)
+    rewrite (Hrej 1%nat _ eq_refl (x_21 d Ha)) by discriminate. now rewrite Hacc.
+  - (* PKCS#1 public: tried last *)
+    rewrite (Hrej 1%nat _ eq_refl (x_31 d Ha)), (Hrej 2%nat _ eq_refl (x_32 d Ha)),
+            (Hrej 4%nat _ eq_refl (x_34 d Ha)), (Hrej 5%nat _ eq_refl (x_35 d Hside)),
+            (Hrej 6%nat _ eq_refl (x_36 d Hside)) by discriminate.
+    now rewrite Hacc.
+  - (* SEC1 *)
+    rewrite (Hrej 1%nat _ eq_refl (x_41 d Ha)), (Hrej 2%nat _ eq_refl (x_42 d Ha)) by discriminate.
+    now rewrite Hacc.
+  - (* PKCS#1 private *)
+    rewrite (Hrej 1%nat _ eq_refl (x_51 d Ha)), (Hrej 2%nat _ eq_refl (x_52 d Ha)),
+            (Hrej 4%nat _ eq_refl (x_54 d Ha)) by discriminate.
+    now rewrite Hacc.
+  - (* DSA private *)
+    rewrite (Hrej 1%nat _ eq_refl (x_61 d Ha)), (Hrej 2%nat _ eq_refl (x_62 d Ha)),
+            (Hrej 4%nat _ eq_refl (x_64 d Ha)), (Hrej 5%nat _ eq_refl (x_65 d Hside)) by discriminate.
+    now rewrite Hacc.
+Qed.
+
+(* for kinds 1..6 the label's parser result is the kind's own description *)
+Lemma parse_kind_of_kind : forall L k d, (1 <= k <= 6)%nat -> der_of_kind k d = true ->
+  parse_kind L k d = Ok (l_desc L k d).
+Proof.
+  intros L k d Hk Hd. apply der_of_kind_parts in Hd as (_ & _ & _ & _ & Hs).
+  destruct k; [lia|]. destruct Hs as (s & Hs & Ha & _). unfold parse_kind. now rewrite Hs, Ha.
+Qed.
+
+(* ====================================================================== *)
+(* C. the PEM label route                                                  *)
+(* ====================================================================== *)
+
+Lemma label_parser_of_kind : forall L k, (k <= 6)%nat ->
+  label_parser L (label_of k) = Some (parse_kind L k).
+Proof.
+  intros L k Hk. destruct k as [|[|[|[|[|[|[|k]]]]]]]; try lia; reflexivity.
+Qed.
+
+Lemma label_is_upper : forall k, to_upper_go (label_of k) = label_of k.
+Proof.
+  intros k. destruct k as [|[|[|[|[|[|k]]]]]]; vm_compute; reflexivity.
+Qed.
+
+Lemma label_not_pgp : forall k, is_pgp_type (label_of k) = false.
+Proof.
+  intros k. destruct k as [|[|[|[|[|[|k]]]]]]; vm_compute; reflexivity.
+Qed.
+
+Lemma parse_kind_ok : forall L k d, (k <= 6)%nat -> der_of_kind k d = true -> cert_oracle_ok L k d = true ->
+  exists i, parse_kind L k d = Ok i.
+Proof.
+  intros L k d Hk Hd Hc. destruct k as [|k].
+  - unfold cert_oracle_ok in Hc. cbn [parse_kind]. destruct (l_cert L d); try discriminate. eauto.
+  - rewrite parse_kind_of_kind by (assumption || lia). eauto.
+Qed.
+
+(* the block's label, in any case that upper-cases to the kind's label, selects the kind's parser *)
+Theorem pem_block_eq_der : forall L k typ d, (k <= 6)%nat ->
+  to_upper_go typ = label_of k ->
+  der_of_kind k d = true -> cert_oracle_ok L k d = true ->
+  parse_pem_block L typ d = route_der L d.
+Proof.
+  intros L k typ d Hk Hu Hd Hc. unfold parse_pem_block. rewrite Hu, label_parser_of_kind by assumption.
+  rewrite (trial_order_thm L k d Hk Hd Hc).
+  destruct (parse_kind_ok L k d Hk Hd Hc) as [i Hi]. now rewrite Hi.
+Qed.
+
+Theorem pem_file_eq_der : forall L k typ d, (k <= 6)%nat ->
+  to_upper_go typ = label_of k -> is_pgp_type typ = false ->
+  der_of_kind k d = true -> cert_oracle_ok L k d = true ->
+  pem_file L [(typ, d)] = route_der L d.
+Proof.
+  intros L k typ d Hk Hu Hp Hd Hc. unfold pem_file. cbn [filter fst snd]. rewrite Hp. cbn [negb map_result fst snd].
+  rewrite (pem_block_eq_der L k typ d Hk Hu Hd Hc), (trial_order_thm L k d Hk Hd Hc).
+  destruct (parse_kind_ok L k d Hk Hd Hc) as [i Hi]. now rewrite Hi.
+Qed.
+
+(* C05_pem_eq_der *)
+Theorem pem_eq_der : forall L pem_blocks k d crlf pre post, (k <= 6)%nat ->
+  der_of_kind k d = true -> cert_oracle_ok L k d = true ->
+  pem_blocks (pem_text (label_of k) d crlf pre post) = [(label_of k, d)] ->
+  route_pem L pem_blocks (pem_text (label_of k) d crlf pre post) = route_der L d.
+Proof.
+  intros L pb k d crlf pre post Hk Hd Hc Hb. unfold route_pem. rewrite Hb.
+  apply (pem_file_eq_der L k); auto using label_is_upper, label_not_pgp.
+Qed.
+
+(* ====================================================================== *)
+(* D. the base64 route                                                     *)
+(* ====================================================================== *)
+
+Lemma strip_eol : forall crlf, strip_nl (eol crlf) = [].
+Proof. intros [|]; reflexivity. Qed.
+
+Lemma b64_text_decodes : forall e w crlf trail d, bytes_ok d = true ->
+  decode_any (b64_text e w crlf trail d) = Ok d.
+Proof.
+  intros e w crlf trail d H. apply (Proofs.Base64.decode_any_complete _ e).
+  destruct (Proofs.Base64.encode_core_props (enc_url e) (enc_padded e) (S (length d)) d (Nat.lt_succ_diag_r _) H)
+    as [Hnl Hcore].
+  unfold std_decode. cbv zeta. unfold b64_text, encode.
+  rewrite Proofs.Base64.strip_app, (Proofs.Base64.strip_wrap _ _ _ Hnl).
+  destruct trail; [rewrite strip_eol|change (strip_nl []) with (@nil N)];
+    rewrite app_nil_r; apply Hcore; apply Nat.lt_succ_diag_r.
+Qed.
+
+(* C05_b64_eq_der at the level of the parsers *)
+Theorem b64_file_eq_der : forall L e w crlf trail d, bytes_ok d = true ->
+  b64_file L (b64_text e w crlf trail d) = asn1_file L d.
+Proof. intros. unfold b64_file. now rewrite b64_text_decodes. Qed.
+
+(* raw DER of these objects is not base64 text *)
+Lemma not_text_not_b64 : forall d, not_text d = true -> decode_any d = Err "invalid base64".
+Proof.
+  intros d H. unfold decode_any, decode_any_gen.
+  rewrite Proofs.Base64.which_cls_spec, Proofs.Base64.which_with_none; [reflexivity|].
+  unfold not_text in H. unfold Proofs.Base64.has. apply existsb_exists in H as [c [Hin Hc]].
+  apply existsb_exists. exists c. split; [assumption|]. now rewrite <- Proofs.Base64.cls_is_spec.
+Qed.
+
+(* the base64 text of a value that starts with the SEQUENCE tag starts with 'M' *)
+Lemma take_head : forall (A : Type) n (x : A) l, take (S n) (x :: l) = x :: take n l.
+Proof. reflexivity. Qed.
+
+Lemma wrap_head : forall w crlf x s, exists t, wrap w crlf (x :: s) = x :: t.
+Proof.
+  intros w crlf x s. destruct w as [|w]; [now exists s|]. unfold wrap.
+  cbn [length wrap_go]. destruct (Nat.leb (S (length s)) (S w)); [now exists s|].
+  rewrite take_head. cbn [app]. eauto.
+Qed.
+
+Lemma encode_head : forall e d, exists t, encode e (48 :: d) = 77 :: t.
+Proof.
+  intros e d. unfold encode.
+  assert (Hc : forall u, b64char u (48 / 4) = 77) by (intros [|]; reflexivity).
+  destruct d as [|b [|c r]]; cbn [encode_core app]; rewrite Hc; eauto.
+Qed.
+
+Lemma b64_text_head : forall e w crlf trail d, exists t, b64_text e w crlf trail (48 :: d) = 77 :: t.
+Proof.
+  intros e w crlf trail d. unfold b64_text.
+  destruct (encode_head e d) as [t ->]. destruct (wrap_head w crlf 77 t) as [t' ->].
+  cbn [app]. eauto.
+Qed.
+
+(* ====================================================================== *)
+(* D2. neither presentation can be a UUID                                  *)
+(* ====================================================================== *)
+
+Lemma solid_b64char : forall u v, v < 64 -> solid (b64char u v) = true.
+Proof.
+  intros u v Hv.
+  assert (H : forall u, forallb (fun v => solid (b64char u v)) (Proofs.Base64.range 64) = true)
+    by (intros [|]; vm_compute; reflexivity).
+  exact (Proofs.Base64.forall_range (fun v => solid (b64char u v)) 64 (H u) v Hv).
+Qed.
+
+(* the base64 of n bytes: every character is solid, and there are at least 4n/3 of them *)
+Lemma encode_core_solid : forall u p n d, (length d < n)%nat -> bytes_ok d = true ->
+  forallb solid (encode_core u p d) = true /\ (4 * length d <= 3 * length (encode_core u p d))%nat.
+Proof.
+  intros u p. induction n as [|n IH]; intros d Hn Hok; [lia|].
+  destruct d as [|a [|b [|c r]]].
+  - split; [reflexivity|cbn; lia].
+  - cbn [bytes_ok forallb] in Hok. unfold byte_ok in Hok. assert (Ha : a < 256) by lia.
+    cbn [encode_core app]. destruct p; cbn [app forallb length]; rewrite !solid_b64char by lia;
+      (split; [reflexivity|lia]).
+  - cbn [bytes_ok forallb] in Hok. unfold byte_ok in Hok. assert (Ha : a < 256) by lia. assert (Hb : b < 256) by lia.
+    cbn [encode_core app]. destruct p; cbn [app forallb length]; rewrite !solid_b64char by lia;
+      (split; [reflexivity|lia]).
+  - cbn [bytes_ok forallb] in Hok. unfold byte_ok in Hok.
+    assert (Ha : a < 256) by lia. assert (Hb : b < 256) by lia. assert (Hc : c < 256) by lia.
+    assert (Hr : bytes_ok r = true) by (unfold bytes_ok, byte_ok; lia).
+    destruct (IH r ltac:(cbn [length] in Hn; lia) Hr) as [IH1 IH2].
+    cbn [encode_core app forallb length]. rewrite !solid_b64char by lia. split; [exact IH1|lia].
+Qed.
+
+Lemma count_solid_strip : forall x, count_solid (strip_nl x) = count_solid x.
+Proof.
+  intros x. unfold count_solid, strip_nl. induction x as [|c x IH]; [reflexivity|].
+  cbn [filter]. destruct (is_nl c) eqn:E; cbn [negb].
+  - assert (solid c = false).
+    { unfold is_nl in E. unfold solid, is_ascii_space. lia. }
+    now rewrite H.
+  - cbn [filter]. destruct (solid c); cbn [length]; now rewrite IH.
+Qed.
+
+Lemma filter_all : forall (A : Type) (f : A -> bool) l, forallb f l = true -> filter f l = l.
+Proof.
+  induction l as [|x l IH]; intros H; [reflexivity|]. cbn [forallb filter] in *.
+  apply andb_true_iff in H as [H1 H2]. rewrite H1. f_equal. now apply IH.
+Qed.
+
+Lemma strip_b64_text : forall e w crlf trail d, bytes_ok d = true ->
+  strip_nl (b64_text e w crlf trail d) = encode e d.
+Proof.
+  intros e w crlf trail d H.
+  destruct (Proofs.Base64.encode_core_props (enc_url e) (enc_padded e) (S (length d)) d (Nat.lt_succ_diag_r _) H)
+    as [Hnl _].
+  unfold b64_text, encode. rewrite Proofs.Base64.strip_app, (Proofs.Base64.strip_wrap _ _ _ Hnl).
+  destruct trail; [rewrite strip_eol|change (strip_nl []) with (@nil N)]; apply app_nil_r.
+Qed.
+
+(* base64 text of 34 bytes or more has more than 45 characters that TrimSpace cannot remove *)
+Theorem b64_text_not_uuid : forall e w crlf trail d, bytes_ok d = true -> (34 <= length d)%nat ->
+  uuid_possible (b64_text e w crlf trail d) = false.
+Proof.
+  intros e w crlf trail d Hb Hl. unfold uuid_possible.
+  rewrite <- count_solid_strip, (strip_b64_text e w crlf trail d Hb).
+  destruct (encode_core_solid (enc_url e) (enc_padded e) (S (length d)) d (Nat.lt_succ_diag_r _) Hb) as [Hs Hlen].
+  unfold count_solid, encode. rewrite (filter_all _ _ _ Hs).
+  destruct (Nat.leb (length (encode_core (enc_url e) (enc_padded e) d)) 45) eqn:E; [|reflexivity].
+  apply Nat.leb_le in E. lia.
+Qed.
+
+(* raw DER of a well-formed object: it starts with '0' and a byte at offsets 1..7 is no hex digit *)
+Theorem der_not_uuid : forall k d, der_of_kind k d = true -> uuid_possible d = false.
+Proof.
+  intros k d H. pose proof (der_of_kind_not_hex7 k d H) as Hh.
+  apply der_of_kind_parts in H as (_ & Hs & _). unfold uuid_possible.
+  destruct d as [|c l]; [apply andb_false_r|]. unfold starts_seq in Hs.
+  assert (c = 48). { destruct c as [|p]; [discriminate|]. do 6 (destruct p; try discriminate). reflexivity. }
+  subst c. rewrite Hh. change (negb (solid 48) || (48 =? 117) || (48 =? 85) || false) with false.
+  apply andb_false_r.
+Qed.
+
+Lemma oracle_says_no : forall so data, uuid_oracle_ok so -> uuid_possible data = false ->
+  so (bs "IsUUID") data = false.
+Proof.
+  intros so data Ho Hp. destruct (so (bs "IsUUID") data) eqn:E; [|reflexivity].
+  apply Ho in E. congruence.
+Qed.
+
+(* ====================================================================== *)
+(* E. the dispatcher on these inputs                                       *)
+(* ====================================================================== *)
+
+Lemma bytes_eqb_eq : forall a b, bytes_eqb a b = true -> a = b.
+Proof.
+  induction a as [|x a IH]; intros [|y b] H; cbn [bytes_eqb] in H; try discriminate; [reflexivity|].
+  apply andb_true_iff in H as [H1 H2]. apply N.eqb_eq in H1. subst. f_equal. now apply IH.
+Qed.
+
+Lemma drop_while_split : forall (A : Type) (f : A -> bool) l,
+  exists pre, l = pre ++ drop_while f l /\ forallb f pre = true.
+Proof.
+  induction l as [|x l IH]; cbn [drop_while].
+  - exists []. auto.
+  - destruct (f x) eqn:E.
+    + destruct IH as [pre [H1 H2]]. exists (x :: pre). cbn [app forallb]. rewrite E, H2. split; [now f_equal|reflexivity].
+    + exists []. auto.
+Qed.
+
+Lemma exact_matches : forall n p, pattern_exact p = true -> pattern_matches n p = Ok (bytes_eqb n p).
+Proof.
+  intros n p H. unfold pattern_exact in H.
+  repeat (apply andb_true_iff in H as [H ?]).
+  repeat match goal with H : negb _ = true |- _ => apply negb_true_iff in H end.
+  match goal with H : bytes_eqb (trim_both 42 p) p = true |- _ => apply bytes_eqb_eq in H end.
+  now apply Proofs.Dispatch.exact_pattern.
+Qed.
+
+Lemma patterns_nomatch : forall n ps, forallb pattern_exact ps = true ->
+  existsb (bytes_eqb n) ps = false -> patterns_match n ps = Ok false.
+Proof.
+  induction ps as [|p ps IH]; intros He Hn; [reflexivity|].
+  cbn [forallb existsb patterns_match] in *. apply andb_true_iff in He as [Hp He].
+  apply orb_false_iff in Hn as [Hn1 Hn2]. rewrite (exact_matches n p Hp), Hn1. now apply IH.
+Qed.
+
+Definition patterns_exact (t : list row) : bool := forallb (fun r => forallb pattern_exact (r_patterns r)) t.
+
+Lemma name_nomatch : forall t r name, patterns_exact t = true -> In r t ->
+  reserved_in t name = false -> matches_name r name = Ok false.
+Proof.
+  intros t r name He Hin Hr. unfold matches_name. destruct name as [|c name]; [reflexivity|].
+  unfold patterns_exact in He. rewrite forallb_forall in He.
+  apply patterns_nomatch; [now apply He|].
+  unfold reserved_in in Hr.
+  destruct (existsb (bytes_eqb (basename (c :: name))) (r_patterns r)) eqn:E; [|reflexivity].
+  exfalso. assert (existsb (fun r => existsb (bytes_eqb (basename (c :: name))) (r_patterns r)) t = true).
+  { apply existsb_exists. eauto. }
+  congruence.
+Qed.
+
+Lemma magic_nomatch : forall r c data, forallb (magic_avoids c) (r_magics r) = true ->
+  matches_magic r (c :: data) = false.
+Proof.
+  intros r c data H. unfold matches_magic. induction (r_magics r) as [|m ms IH]; [reflexivity|].
+  cbn [forallb existsb] in *. apply andb_true_iff in H as [Hm Hms]. rewrite (IH Hms), orb_false_r.
+  destruct m as [|x m]; [discriminate|]. cbn [magic_avoids prefix_of] in *.
+  apply negb_true_iff in Hm. now rewrite Hm.
+Qed.
+
+Section Dispatching.
+  Variable L : lib.
+  Variable pem_blocks : bytes -> list (bytes * bytes).
+  Variable sniff_other : bytes -> bytes -> bool.
+  Variable parse_other : bytes -> bytes -> result info.
+
+  Notation sniff' := (sniff sniff_other).
+  Notation parse' := (parse L pem_blocks parse_other).
+
+  (* rows without a sniffer contribute no candidate for a neutral name and content starting with c *)
+  Lemma quiet_rows : forall t pre name c data,
+    patterns_exact t = true -> reserved_in t name = false -> incl pre t ->
+    forallb no_sniffer pre = true ->
+    forallb (fun r => forallb (magic_avoids c) (r_magics r)) pre = true ->
+    candidates_in sniff' pre name (c :: data) = Ok [].
+  Proof.
+    intros t pre name c data He Hr. induction pre as [|r pre IH]; intros Hi Hs Hm; [reflexivity|].
+    cbn [candidates_in forallb] in *. apply andb_true_iff in Hs as [Hs1 Hs2]. apply andb_true_iff in Hm as [Hm1 Hm2].
+    unfold row_matches. rewrite (name_nomatch t r name He (Hi r (or_introl eq_refl)) Hr).
+    rewrite (magic_nomatch r c data Hm1). unfold smells_like, no_sniffer in *.
+    destruct (r_sniffer r); [|discriminate]. cbn [orb].
+    rewrite IH; auto. intros x Hx. apply Hi. now right.
+  Qed.
+
+  Lemma candidates_app : forall a b name data x y,
+    candidates_in sniff' a name data = Ok x -> candidates_in sniff' b name data = Ok y ->
+    candidates_in sniff' (a ++ b) name data = Ok (x ++ y).
+  Proof.
+    induction a as [|r a IH]; intros b name data x y Ha Hb; cbn [app candidates_in] in *.
+    - inversion Ha. assumption.
+    - destruct (row_matches sniff' name data r) as [m| |]; try discriminate.
+      destruct (candidates_in sniff' a name data) as [l| |] eqn:E; try discriminate.
+      rewrite (IH b name data l y E Hb). inversion Ha. destruct m; reflexivity.
+  Qed.
+
+  Lemma smells_like_named : forall r n data, r_sniffer r = n -> n <> [] ->
+    smells_like sniff' r data = sniff' n data.
+  Proof. intros r n data H Hn. unfold smells_like. rewrite H. destruct n; [congruence|reflexivity]. Qed.
+
+  Lemma sniffer_row_matches : forall r sn pa, sniffer_row sn pa r = true ->
+    r_sniffer r = sn /\ r_parser r = pa /\
+    forall name data, row_matches sniff' name data r = Ok (smells_like sniff' r data).
+  Proof.
+    intros r sn pa H. unfold sniffer_row in H.
+    destruct (r_patterns r) eqn:Ep; [|discriminate]. destruct (r_magics r) eqn:Em; [|discriminate].
+    apply andb_true_iff in H as [H1 H2]. apply bytes_eqb_eq in H1, H2.
+    repeat split; try assumption. intros name data.
+    unfold row_matches, matches_name, matches_magic. rewrite Ep, Em.
+    destruct name; reflexivity.
+  Qed.
+
+  Lemma exact_no_wildcards : forall t, patterns_exact t = true -> no_wildcards t = true.
+  Proof.
+    intros t H. unfold patterns_exact in H. unfold no_wildcards.
+    rewrite forallb_forall in *. intros r Hr. specialize (H r Hr).
+    rewrite forallb_forall in *. intros p Hp. specialize (H p Hp).
+    unfold pattern_exact in H. repeat (apply andb_true_iff in H as [H ?]). assumption.
+  Qed.
+
+  Definition head_candidates (data : bytes) : list bytes :=
+    (if is_b64_asn1 data then [bs "Base64ASN1File"] else []) ++ (if is_asn1 data then [bs "ASN1File"] else []).
+
+  (* the candidate list for a neutral name and content that starts with '0' or 'M' and is no UUID *)
+  Lemma candidates_shape : forall t name c data,
+    routes_table_ok t = true -> reserved_in t name = false -> (c = 48 \/ c = 77) ->
+    sniff_other (bs "IsUUID") (c :: data) = false ->
+    exists l, candidates_in sniff' t name (c :: data) = Ok (head_candidates (c :: data) ++ l).
+  Proof.
+    intros t name c data Hok Hr Hc Hu. unfold routes_table_ok in Hok.
+    apply andb_true_iff in Hok as [Hok Hrows]. apply andb_true_iff in Hok as [He Hm].
+    fold (patterns_exact t) in He.
+    destruct (drop_while_split row no_sniffer t) as [pre [Ht Hpre]].
+    destruct (drop_while no_sniffer t) as [|r1 [|r2 [|r3 post]]]; try discriminate.
+    apply andb_true_iff in Hrows as [Hrows H3]. apply andb_true_iff in Hrows as [H1 H2].
+    apply sniffer_row_matches in H1 as (S1 & _ & M1), H2 as (S2 & P2 & M2), H3 as (S3 & P3 & M3).
+    assert (Hincl : incl pre t) by (rewrite Ht; apply incl_appl, incl_refl).
+    assert (Hpost : incl post t).
+    { rewrite Ht. apply incl_appr. do 3 apply incl_tl. apply incl_refl. }
+    assert (Hmag : forallb (fun r => forallb (magic_avoids c) (r_magics r)) pre = true).
+    { apply forallb_forall. intros r Hin. rewrite forallb_forall in Hm. specialize (Hm r (Hincl r Hin)).
+      apply andb_true_iff in Hm as [Hm1 Hm2]. destruct Hc; subst c; assumption. }
+    pose proof (quiet_rows t pre name c data He Hr Hincl Hpre Hmag) as Hq.
+    destruct (Proofs.Dispatch.candidates_total sniff' t post name (c :: data) (exact_no_wildcards t He) Hpost) as [l Hl].
+    exists l. rewrite Ht.
+    erewrite candidates_app; [|exact Hq|]; [reflexivity|].
+    cbn [candidates_in]. rewrite M1, M2, M3, Hl.
+    rewrite (smells_like_named r1 _ _ S1), (smells_like_named r2 _ _ S2), (smells_like_named r3 _ _ S3) by discriminate.
+    change (sniff' (bs "IsUUID") (c :: data)) with (sniff_other (bs "IsUUID") (c :: data)).
+    change (sniff' (bs "IsBase64ASN1") (c :: data)) with (is_b64_asn1 (c :: data)).
+    change (sniff' (bs "IsASN1") (c :: data)) with (is_asn1 (c :: data)).
+    rewrite Hu, P2, P3. unfold head_candidates.
+    destruct (is_b64_asn1 (c :: data)), (is_asn1 (c :: data)); reflexivity.
+  Qed.
+
+  Lemma inspect_head : forall t name data p l i,
+    candidates_in sniff' t name data = Ok (p :: l) -> parse' p data = Ok i ->
+    inspect_in_table L pem_blocks sniff_other parse_other t name data = Ok i.
+  Proof.
+    intros t name data p l i Hc Hp. unfold inspect_in_table, inspect_in. rewrite Hc.
+    cbn [first_success]. now rewrite Hp.
+  Qed.
+
+  Lemma asn1_file_ok : forall k d, (k <= 6)%nat -> der_of_kind k d = true -> cert_oracle_ok L k d = true ->
+    exists i, asn1_file L d = Ok i.
+  Proof.
+    intros k d Hk Hd Hc. unfold asn1_file. rewrite (trial_order_thm L k d Hk Hd Hc).
+    destruct (parse_kind_ok L k d Hk Hd Hc) as [i ->].
+    destruct (bytes_eqb (i_desc i) (i_desc unknown_asn1)); eauto.
+  Qed.
+
+  (* raw DER of a well-formed object, under a neutral name: the ASN1File route *)
+  Theorem inspect_der : forall t name k d, routes_table_ok t = true -> reserved_in t name = false ->
+    (k <= 6)%nat -> der_of_kind k d = true -> cert_oracle_ok L k d = true ->
+    sniff_other (bs "IsUUID") d = false ->
+    inspect_in_table L pem_blocks sniff_other parse_other t name d = asn1_file L d.
+  Proof.
+    intros t name k d Hok Hr Hk Hd Hc Hu.
+    destruct (asn1_file_ok k d Hk Hd Hc) as [i Hi]. rewrite Hi.
+    apply der_of_kind_parts in Hd as (Hasn & Hseq & Hnt & _ & _).
+    destruct d as [|c d]; [discriminate|]. unfold starts_seq in Hseq.
+    assert (c = 48). { destruct c as [|p]; [discriminate|]. do 6 (destruct p; try discriminate). reflexivity. }
+    subst c.
+    destruct (candidates_shape t name 48 d Hok Hr (or_introl eq_refl) Hu) as [l Hl].
+    unfold head_candidates in Hl. unfold is_b64_asn1 in Hl at 1.
+    rewrite (not_text_not_b64 _ Hnt), Hasn in Hl. cbn [app] in Hl.
+    eapply inspect_head; [exact Hl|]. exact Hi.
+  Qed.
+
+  (* its base64 text, under a neutral name: the Base64ASN1File route, to the same description *)
+  Theorem inspect_b64 : forall t name k d e w crlf trail, routes_table_ok t = true -> reserved_in t name = false ->
+    (k <= 6)%nat -> der_of_kind k d = true -> cert_oracle_ok L k d = true ->
+    sniff_other (bs "IsUUID") (b64_text e w crlf trail d) = false ->
+    inspect_in_table L pem_blocks sniff_other parse_other t name (b64_text e w crlf trail d) = asn1_file L d.
+  Proof.
+    intros t name k d e w crlf trail Hok Hr Hk Hd Hc Hu.
+    destruct (asn1_file_ok k d Hk Hd Hc) as [i Hi]. rewrite Hi.
+    apply der_of_kind_parts in Hd as (Hasn & Hseq & _ & Hb & _).
+    destruct d as [|c d]; [discriminate|]. unfold starts_seq in Hseq.
+    assert (c = 48). { destruct c as [|p]; [discriminate|]. do 6 (destruct p; try discriminate). reflexivity. }
+    subst c.
+    destruct (b64_text_head e w crlf trail d) as [tl Htl].
+    assert (Hdec := b64_text_decodes e w crlf trail (48 :: d) Hb).
+    rewrite Htl in *.
+    destruct (candidates_shape t name 77 tl Hok Hr (or_intror eq_refl) Hu) as [l Hl].
+    unfold head_candidates in Hl. unfold is_b64_asn1 in Hl at 1. rewrite Hdec, Hasn in Hl. cbn [app] in Hl.
+    eapply inspect_head; [exact Hl|].
+    change (parse' (bs "Base64ASN1File") (77 :: tl)) with (b64_file L (77 :: tl)).
+    unfold b64_file. rewrite Hdec. exact Hi.
+  Qed.
+End Dispatching.
+
+(* ====================================================================== *)
+(* F. the file name and standard input                                     *)
+(* ====================================================================== *)
+
+Section AnyParsers.
+  Variable sniffv : bytes -> bytes -> bool.
+  Variable parsev : bytes -> bytes -> result info.
+
+  Lemma candidates_name : forall t0 t n1 n2 data, patterns_exact t0 = true -> incl t t0 ->
+    reserved_in t0 n1 = false -> reserved_in t0 n2 = false ->
+    candidates_in sniffv t n1 data = candidates_in sniffv t n2 data.
+  Proof.
+    intros t0 t n1 n2 data He. induction t as [|r t IH]; intros Hi H1 H2; [reflexivity|].
+    cbn [candidates_in]. unfold row_matches.
+    rewrite (name_nomatch t0 r n1 He (Hi r (or_introl eq_refl)) H1),
+            (name_nomatch t0 r n2 He (Hi r (or_introl eq_refl)) H2).
+    rewrite IH; auto. intros x Hx. apply Hi. now right.
+  Qed.
+
+  (* C05_name_irrelevant, for any table whose name patterns are exact names *)
+  Theorem name_irrelevant : forall t n1 n2 data, patterns_exact t = true ->
+    reserved_in t n1 = false -> reserved_in t n2 = false ->
+    inspect_in sniffv parsev t n1 data = inspect_in sniffv parsev t n2 data.
+  Proof.
+    intros t n1 n2 data He H1 H2. unfold inspect_in.
+    now rewrite (candidates_name t t n1 n2 data He (incl_refl t) H1 H2).
+  Qed.
+End AnyParsers.
+
+(* ---- instance lemmas on the regenerated table (T1) ---- *)
+Lemma routes_table_ok_now : routes_table_ok table = true.
+Proof. vm_compute. reflexivity. Qed.
+
+Lemma patterns_exact_now : patterns_exact table = true.
+Proof.
+  pose proof routes_table_ok_now as H. unfold routes_table_ok in H.
+  apply andb_true_iff in H as [H _]. apply andb_true_iff in H as [H _]. exact H.
+Qed.
+
+Lemma pem_table_ok_now : pem_table_ok pem_heads table = true.
+Proof. vm_compute. reflexivity. Qed.
+
+Lemma stdin_not_reserved : reserved_in table stdin_name = false.
+Proof. vm_compute. reflexivity. Qed.
+
+(* the names the table reserves are exactly the two SSH file names *)
+Lemma reserved_names_now : forall name, name <> [] ->
+  reserved_in table name =
+  bytes_eqb (basename name) (bs "authorized_keys") || bytes_eqb (basename name) (bs "known_hosts").
+Proof.
+  intros name Hn. destruct name as [|c name]; [congruence|].
+  unfold reserved_in. generalize (basename (c :: name)). intros b.
+  assert (H : map r_patterns table =
+              [[]; []; []; []; []; []; []; []; [bs "authorized_keys"]; [bs "known_hosts"]; []; []; []; []; []; []])
+    by (vm_compute; reflexivity).
+  assert (G : forall t, existsb (fun r => existsb (bytes_eqb b) (r_patterns r)) t
+                        = existsb (existsb (bytes_eqb b)) (map r_patterns t)).
+  { induction t as [|r t IH]; [reflexivity|]. cbn [existsb map]. now rewrite IH. }
+  rewrite G, H. cbn [existsb]. now rewrite !orb_false_r.
+Qed.
+
+Section Cli.
+  Variable L : lib.
+  Variable pem_blocks : bytes -> list (bytes * bytes).
+  Variable sniff_other : bytes -> bytes -> bool.
+  Variable parse_other : bytes -> bytes -> result info.
+
+  Theorem file_name_irrelevant : forall n1 n2 data,
+    reserved_in table n1 = false -> reserved_in table n2 = false ->
+    inspect_file L pem_blocks sniff_other parse_other n1 data =
+    inspect_file L pem_blocks sniff_other parse_other n2 data.
+  Proof. intros. unfold inspect_file, inspect_in_table. apply name_irrelevant; auto using patterns_exact_now. Qed.
+
+  (* C05_stdin: the report for a file is "path: " followed by the report for the same bytes on standard input *)
+  Theorem stdin_thm : forall path data, reserved_in table path = false ->
+    cli L pem_blocks sniff_other parse_other (Some path) data =
+    match cli L pem_blocks sniff_other parse_other None data with
+    | Ok out => Ok (path ++ [58; 32] ++ out)
+    | Err e => Err e
+    | Panic p => Panic p
+    end.
+  Proof.
+    intros path data H. unfold cli.
+    rewrite (file_name_irrelevant path stdin_name data H stdin_not_reserved).
+    destruct (inspect_file L pem_blocks sniff_other parse_other stdin_name data); reflexivity.
+  Qed.
+End Cli.
+
+(* ====================================================================== *)
+(* G. PEM files through the dispatcher                                     *)
+(* ====================================================================== *)
+
+Lemma prefix_decided_app : forall m a t b, prefix_decided m a = Some b -> prefix_of m (a ++ t) = b.
+Proof.
+  induction m as [|x m IH]; intros a t b H; cbn [prefix_decided] in H.
+  - inversion H. reflexivity.
+  - destruct a as [|y a]; [discriminate|]. cbn [app prefix_of].
+    destruct (x =? y); cbn [andb]; [now apply IH|now inversion H].
+Qed.
+
+Lemma take_drop_while : forall (A : Type) (f : A -> bool) l, l = take_while f l ++ drop_while f l.
+Proof.
+  induction l as [|x l IH]; [reflexivity|]. cbn [take_while drop_while].
+  destruct (f x); [cbn [app]; now f_equal|reflexivity].
+Qed.
+
+Lemma drop_while_head : forall (A : Type) (f : A -> bool) l x r, drop_while f l = x :: r -> f x = false.
+Proof.
+  induction l as [|y l IH]; intros x r H; cbn [drop_while] in H; [discriminate|].
+  destruct (f y) eqn:E; [eauto|]. inversion H; subst. exact E.
+Qed.
+
+Lemma decided_spec : forall b o, decided b o = true -> o = Some b.
+Proof. intros b [x|] H; cbn in H; [|discriminate]. apply Bool.eqb_prop in H. now subst. Qed.
+
+Section PemDispatch.
+  Variable L : lib.
+  Variable pem_blocks : bytes -> list (bytes * bytes).
+  Variable sniff_other : bytes -> bytes -> bool.
+  Variable parse_other : bytes -> bytes -> result info.
+  Notation sniff' := (sniff sniff_other).
+  Notation parse' := (parse L pem_blocks parse_other).
+
+  (* a file that starts with the first line of a PEM block: the PEM signature row decides,
+     whatever the file is called *)
+  Theorem inspect_pem_head : forall heads t name head rest i,
+    pem_table_ok heads t = true -> In head heads ->
+    route_pem L pem_blocks (head ++ rest) = Ok i ->
+    inspect_in_table L pem_blocks sniff_other parse_other t name (head ++ rest) = Ok i.
+  Proof.
+    intros heads t name head rest i Hok Hin Hr. unfold pem_table_ok in Hok.
+    apply andb_true_iff in Hok as [Hok Hw]. apply andb_true_iff in Hok as [Hok Hrow].
+    apply andb_true_iff in Hok as [Hsig Hmag].
+    pose proof (take_drop_while row not_pem_row t) as Ht.
+    destruct (drop_while not_pem_row t) as [|r post] eqn:Ed; [discriminate|].
+    apply andb_true_iff in Hrow as [Hrsig Hrmag].
+    apply drop_while_head in Ed. unfold not_pem_row in Ed. apply negb_false_iff, bytes_eqb_eq in Ed.
+    unfold inspect_in_table. rewrite Ht. rewrite Ht in Hw.
+    apply Proofs.Dispatch.precedence; try assumption.
+    - apply forallb_forall. intros x Hx. rewrite forallb_forall in Hmag. specialize (Hmag x Hx).
+      apply negb_true_iff. unfold matches_magic.
+      destruct (existsb (fun m => prefix_of m (head ++ rest)) (r_magics x)) eqn:E; [|reflexivity].
+      apply existsb_exists in E as [m [Hm Hp]]. rewrite forallb_forall in Hmag. specialize (Hmag m Hm).
+      rewrite forallb_forall in Hmag. specialize (Hmag head Hin). apply decided_spec in Hmag.
+      rewrite (prefix_decided_app m head rest false Hmag) in Hp. discriminate.
+    - unfold matches_magic. apply existsb_exists in Hrmag as [m [Hm Hd]]. apply existsb_exists.
+      exists m. split; [assumption|]. rewrite forallb_forall in Hd. specialize (Hd head Hin).
+      apply decided_spec in Hd. now apply prefix_decided_app.
+    - rewrite Ed. exact Hr.
+  Qed.
+
+  Lemma pem_text_split : forall label d crlf post, exists rest,
+    pem_text label d crlf [] post = pem_head label ++ rest.
+  Proof.
+    intros. unfold pem_text, pem_head. cbn [app]. eexists. rewrite <- !app_assoc. reflexivity.
+  Qed.
+
+  Lemma pem_head_in : forall k, (k <= 6)%nat -> In (pem_head (label_of k)) pem_heads.
+  Proof.
+    intros k Hk. unfold pem_heads. apply in_map_iff. exists k. split; [reflexivity|]. apply in_seq. lia.
+  Qed.
+
+  (* C05_pem_eq_der through the dispatcher: a PEM file that starts with the block *)
+  Theorem inspect_pem_eq_der : forall name k d crlf post, (k <= 6)%nat ->
+    der_of_kind k d = true -> cert_oracle_ok L k d = true ->
+    pem_blocks (pem_text (label_of k) d crlf [] post) = [(label_of k, d)] ->
+    inspect_file L pem_blocks sniff_other parse_other name (pem_text (label_of k) d crlf [] post) = route_der L d.
+  Proof.
+    intros name k d crlf post Hk Hd Hc Hb.
+    pose proof (pem_eq_der L pem_blocks k d crlf [] post Hk Hd Hc Hb) as Hp.
+    rewrite (trial_order_thm L k d Hk Hd Hc) in *.
+    destruct (parse_kind_ok L k d Hk Hd Hc) as [i Hi]. rewrite Hi in *.
+    destruct (pem_text_split (label_of k) d crlf post) as [rest Hs]. rewrite Hs in *.
+    unfold inspect_file. apply (inspect_pem_head pem_heads); auto using pem_table_ok_now, pem_head_in.
+  Qed.
+
+  (* a PEM block after other text: the file has no signature; if, of all sniffers, only ones
+     whose parser is PEMFile fire (IsMixedPEM), the description is the PEM route's *)
+  Lemma candidates_only_pem : forall t0 t name text, patterns_exact t0 = true -> incl t t0 ->
+    reserved_in t0 name = false ->
+    (forall r, In r t -> matches_magic r text = false) ->
+    (forall r, In r t -> smells_like sniff' r text = true -> r_parser r = bs "PEMFile") ->
+    exists n, candidates_in sniff' t name text = Ok (repeat (bs "PEMFile") n) /\
+              ((exists r, In r t /\ smells_like sniff' r text = true) -> (0 < n)%nat).
+  Proof.
+    intros t0 t name text He. induction t as [|r t IH]; intros Hi Hr Hm Hs.
+    - exists 0%nat. split; [reflexivity|]. intros [r [[] _]].
+    - destruct IH as [n [Hn Hpos]].
+      + intros x Hx. apply Hi. now right.
+      + assumption.
+      + intros x Hx. apply Hm. now right.
+      + intros x Hx. apply Hs. now right.
+      + cbn [candidates_in]. unfold row_matches.
+        rewrite (name_nomatch t0 r name He (Hi r (or_introl eq_refl)) Hr), (Hm r (or_introl eq_refl)), Hn.
+        cbn [orb]. destruct (smells_like sniff' r text) eqn:E.
+        * exists (S n). rewrite (Hs r (or_introl eq_refl) E). split; [reflexivity|]. intros _. lia.
+        * exists n. split; [reflexivity|]. intros [x [[->|Hx] Hsx]]; [congruence|]. apply Hpos. eauto.
+  Qed.
+
+  Theorem inspect_pem_surrounded : forall t name text i, patterns_exact t = true ->
+    reserved_in t name = false ->
+    (forall r, In r t -> matches_magic r text = false) ->
+    (forall r, In r t -> smells_like sniff' r text = true -> r_parser r = bs "PEMFile") ->
+    (exists r, In r t /\ smells_like sniff' r text = true) ->
+    route_pem L pem_blocks text = Ok i ->
+    inspect_in_table L pem_blocks sniff_other parse_other t name text = Ok i.
+  Proof.
+    intros t name text i He Hr Hm Hs Hex Hp.
+    destruct (candidates_only_pem t t name text He (incl_refl t) Hr Hm Hs) as [n [Hn Hpos]].
+    specialize (Hpos Hex). unfold inspect_in_table, inspect_in. rewrite Hn.
+    destruct n; [lia|]. cbn [repeat first_success].
+    change (parse' (bs "PEMFile") text) with (route_pem L pem_blocks text). now rewrite Hp.
+  Qed.
+
+  (* for a table whose other sniffers are IsUUID, IsJWT, IsASN1, IsBase64ASN1 the conditions are:
+     no UUID, no JWT, not one BER value, not base64 of one, and "-----BEGIN" before the first "-----END" *)
+  Definition other_sniffers : list bytes := [bs "IsUUID"; bs "IsJWT"; bs "IsASN1"; bs "IsBase64ASN1"].
+  Definition surrounded_table_ok (t : list row) : bool :=
+    forallb (fun r => no_sniffer r || bytes_eqb (r_parser r) (bs "PEMFile")
+                      || existsb (bytes_eqb (r_sniffer r)) other_sniffers) t
+    && existsb (fun r => bytes_eqb (r_sniffer r) (bs "IsMixedPEM") && bytes_eqb (r_parser r) (bs "PEMFile")) t.
+
+  Theorem inspect_pem_surrounded_sniffers : forall t name text i,
+    surrounded_table_ok t = true -> patterns_exact t = true -> reserved_in t name = false ->
+    forallb (fun r => negb (matches_magic r text)) t = true ->
+    sniff_other (bs "IsUUID") text = false -> sniff_other (bs "IsJWT") text = false ->
+    is_asn1 text = false -> is_b64_asn1 text = false -> is_mixed_pem text = true ->
+    route_pem L pem_blocks text = Ok i ->
+    inspect_in_table L pem_blocks sniff_other parse_other t name text = Ok i.
+  Proof.
+    intros t name text i Hok He Hr Hm Hu Hj Ha Hb Hx Hp.
+    unfold surrounded_table_ok in Hok. apply andb_true_iff in Hok as [Hall Hex].
+    apply inspect_pem_surrounded; try assumption.
+    - intros r Hin. rewrite forallb_forall in Hm. specialize (Hm r Hin). now apply negb_true_iff in Hm.
+    - intros r Hin Hs. rewrite forallb_forall in Hall. specialize (Hall r Hin).
+      apply orb_true_iff in Hall as [Hall|Hall]; [apply orb_true_iff in Hall as [Hall|Hall]|].
+      + unfold smells_like, no_sniffer in *. destruct (r_sniffer r); [discriminate Hs|discriminate Hall].
+      + now apply bytes_eqb_eq.
+      + exfalso. unfold smells_like in Hs. unfold other_sniffers in Hall. cbn [existsb] in Hall.
+        repeat (apply orb_true_iff in Hall as [Hall|Hall]); try discriminate Hall;
+          apply bytes_eqb_eq in Hall; rewrite Hall in Hs.
+        * change (sniff_other (bs "IsUUID") text = true) in Hs. congruence.
+        * change (sniff_other (bs "IsJWT") text = true) in Hs. congruence.
+        * change (is_asn1 text = true) in Hs. congruence.
+        * change (is_b64_asn1 text = true) in Hs. congruence.
+    - apply existsb_exists in Hex as [r [Hin Hs]]. apply andb_true_iff in Hs as [Hs1 Hs2].
+      apply bytes_eqb_eq in Hs1. exists r. split; [assumption|]. unfold smells_like. rewrite Hs1.
+      exact Hx.
+  Qed.
+End PemDispatch.
+
+Lemma surrounded_table_ok_now : surrounded_table_ok table = true.
+Proof. vm_compute. reflexivity. Qed.
+
+(* ====================================================================== *)
+(* H. witnesses: the unrepaired code refuted, what remains ambiguous, non-vacuity *)
+(* ====================================================================== *)
+
+(* a library that answers with the parser's name: enough to tell descriptions apart *)
+Definition L0 : lib :=
+  mklib (fun _ => Err "x509") (fun i _ => Info (label_of i) [] []) (fun _ => Info (bs "ASN.1 data") [] [])
+        (fun _ => Err "not EC parameters") (fun _ => Err "not an OpenSSH key").
+Definition L0c : lib :=   (* the same, but x509 accepts *)
+  mklib (fun _ => Ok (Info (bs "x.509v3 certificate") [] [])) (l_desc L0) (l_generic L0) (l_ecparams L0) (l_openssh L0).
+Definition no_sniff (_ _ : bytes) : bool := false.
+Definition no_parse (_ _ : bytes) : result info := Err "other format".
+Definition no_blocks (_ : bytes) : list (bytes * bytes) := [].
+
+Definition key32 : bytes := map N.of_nat (seq 1 32).
+(* SEC1 ECPrivateKey, P-256, named curve, no public key: 51 bytes *)
+Definition d_sec1 : bytes :=
+  [48; 49; 2; 1; 1; 4; 32] ++ key32 ++ [160; 10; 6; 8; 42; 134; 72; 206; 61; 3; 1; 7].
+(* PKCS#8 and SubjectPublicKeyInfo, Ed25519 *)
+Definition d_pkcs8 : bytes := [48; 46; 2; 1; 0; 48; 5; 6; 3; 43; 101; 112; 4; 34; 4; 32] ++ key32.
+Definition d_pkix : bytes := [48; 42; 48; 5; 6; 3; 43; 101; 112; 3; 33; 0] ++ key32.
+(* RSAPublicKey {n = 2^64 + 1, e = 65537} *)
+Definition d_pkcs1pub : bytes := [48; 16; 2; 9; 1; 0; 0; 0; 0; 0; 0; 0; 1; 2; 3; 1; 0; 1].
+(* RSAPrivateKey {0, 3233, 17, 2753, 61, 53, 53, 49, 38}: a toy key, modulus below 2^63 *)
+Definition d_toy_rsa : bytes :=
+  [48; 29; 2; 1; 0; 2; 2; 12; 161; 2; 1; 17; 2; 2; 10; 193; 2; 1; 61; 2; 1; 53; 2; 1; 53; 2; 1; 49; 2; 1; 38].
+(* DSA private key {0, p, q, g, y, x} with q = 2^64 + 1, and with a toy q = 1000003 *)
+Definition d_dsa : bytes :=
+  [48; 34; 2; 1; 0; 2; 9; 1; 0; 0; 0; 0; 0; 0; 0; 3; 2; 9; 1; 0; 0; 0; 0; 0; 0; 0; 1; 2; 1; 7; 2; 1; 11; 2; 1; 13].
+Definition d_dsa_toy : bytes :=
+  [48; 28; 2; 1; 0; 2; 9; 1; 0; 0; 0; 0; 0; 0; 0; 3; 2; 3; 15; 66; 67; 2; 1; 7; 2; 1; 11; 2; 1; 13].
+
+(* non-vacuity of [der_of_kind] and [cert_oracle_ok] for every kind *)
+Example wf_cert : der_of_kind 0 d_pkix = true /\ cert_oracle_ok L0c 0 d_pkix = true.
+Proof. vm_compute. auto. Qed.
+Example wf_pkcs8 : der_of_kind 1 d_pkcs8 = true /\ cert_oracle_ok L0 1 d_pkcs8 = true.
+Proof. vm_compute. auto. Qed.
+Example wf_pkix : der_of_kind 2 d_pkix = true /\ cert_oracle_ok L0 2 d_pkix = true.
+Proof. vm_compute. auto. Qed.
+Example wf_pkcs1pub : der_of_kind 3 d_pkcs1pub = true /\ cert_oracle_ok L0 3 d_pkcs1pub = true.
+Proof. vm_compute. auto. Qed.
+Example wf_sec1 : der_of_kind 4 d_sec1 = true /\ cert_oracle_ok L0 4 d_sec1 = true.
+Proof. vm_compute. auto. Qed.
+Example wf_pkcs1priv : der_of_kind 5 d_toy_rsa = true /\ cert_oracle_ok L0 5 d_toy_rsa = true.
+Proof. vm_compute. auto. Qed.
+Example wf_dsapriv : der_of_kind 6 d_dsa = true /\ cert_oracle_ok L0 6 d_dsa = true.
+Proof. vm_compute. auto. Qed.
+
+(* C05-F1: with the table as it was (IsASN1/ASN1File before IsBase64ASN1/Base64ASN1File) the padded
+   base64 of the 51-byte EC key, wrapped at 64 with CRLF, is described as generic ASN.1 data *)
+Theorem F1_refuted : exists k d e w crlf trail name,
+  (k <= 6)%nat /\ der_of_kind k d = true /\ cert_oracle_ok L0 k d = true /\
+  reserved_in table_before name = false /\
+  inspect_in_table L0 no_blocks no_sniff no_parse table_before name (b64_text e w crlf trail d)
+  <> inspect_in_table L0 no_blocks no_sniff no_parse table_before name d.
+Proof.
+  exists 4%nat, d_sec1, Std, 64%nat, true, false, (bs "key.b64").
+  split; [lia|]. split; [vm_compute; reflexivity|]. split; [reflexivity|]. split; [vm_compute; reflexivity|].
+  intros H. vm_compute in H. discriminate H.
+Qed.
+
+Example F1_repaired :
+  inspect_in_table L0 no_blocks no_sniff no_parse table (bs "key.b64") (b64_text Std 64 true false d_sec1)
+  = inspect_in_table L0 no_blocks no_sniff no_parse table (bs "key.b64") d_sec1.
+Proof. vm_compute. reflexivity. Qed.
+
+(* C05-F2: with the trial order as it was, a PKCS#1 private key with a modulus below 2^63 is
+   claimed by the PKCS#1 public schema, while its PEM label selects the private-key parser *)
+Theorem F2_refuted : exists d,
+  der_of_kind 5 d = true /\
+  first_kind L0 trial_order_before d = Ok (l_desc L0 3 d) /\
+  parse_pem_block L0 (label_of 5) d = Ok (l_desc L0 5 d) /\
+  l_desc L0 3 d <> l_desc L0 5 d.
+Proof.
+  exists d_toy_rsa. repeat split; try (vm_compute; reflexivity). intros H. vm_compute in H. discriminate H.
+Qed.
+
+Example F2_repaired : route_der L0 d_toy_rsa = parse_pem_block L0 (label_of 5) d_toy_rsa.
+Proof. vm_compute. reflexivity. Qed.
+
+(* what remains, and why [der_of_kind 6] asks that q does not fit a Go int: {0,p,q,g,y,x} with a
+   toy q is, as DER, indistinguishable from RSAPrivateKey {version,n,e,d,p,q}; only the PEM label tells *)
+Theorem dsa_toy_q_ambiguous : exists d,
+  accepts s_dsapriv d = true /\ der_of_kind 6 d = false /\
+  route_der L0 d = Ok (l_desc L0 5 d) /\ parse_pem_block L0 (label_of 6) d = Ok (l_desc L0 6 d).
+Proof. exists d_dsa_toy. repeat split; vm_compute; reflexivity. Qed.
+
+(* quirks of encoding/asn1 that the matcher reproduces (checked against the library by the harness) *)
+Example trailing_elements_ignored : accepts s_pkcs1pub [48; 9; 2; 1; 5; 2; 1; 3; 2; 1; 9] = true.
+Proof. reflexivity. Qed.
+Example explicit_wrapper_length_ignored :   (* [0] claims 3 bytes, the OID inside has 7 *)
+  accepts s_sec1 [48; 16; 2; 1; 1; 4; 2; 170; 187; 160; 3; 6; 5; 43; 129; 4; 0; 33] = true.
+Proof. reflexivity. Qed.
+Example int_field_limited_to_64_bits :
+  accepts s_pkcs1pub [48; 14; 2; 1; 5; 2; 9; 0; 128; 0; 0; 0; 0; 0; 0; 0] = false.
+Proof. reflexivity. Qed.
+
+(* label matching is case-insensitive, and two non-ASCII letters upper-case into ASCII *)
+Example label_lowercase : to_upper_go (bs "rsa private key") = label_of 5.
+Proof. reflexivity. Qed.
+Example label_dotless_i : to_upper_go ([67; 69; 82; 84; 196; 177; 70; 196; 177; 67; 65; 84; 69]) = label_of 0.
+Proof. reflexivity. Qed.
+
+(* ====================================================================== *)
+(* I. the statements of Props/C05.v that combine the above                 *)
+(* ====================================================================== *)
+
+Section Combined.
+  Variable L : lib.
+  Variable pem_blocks : bytes -> list (bytes * bytes).
+  Variable sniff_other : bytes -> bytes -> bool.
+  Variable parse_other : bytes -> bytes -> result info.
+  Notation inspect' := (inspect_file L pem_blocks sniff_other parse_other).
+
+  Theorem b64_eq_der : forall n1 n2 k d e w crlf trail, (k <= 6)%nat ->
+    der_of_kind k d = true -> cert_oracle_ok L k d = true -> (34 <= length d)%nat ->
+    reserved_in table n1 = false -> reserved_in table n2 = false ->
+    uuid_oracle_ok sniff_other ->
+    inspect' n1 (b64_text e w crlf trail d) = inspect' n2 d.
+  Proof.
+    intros n1 n2 k d e w crlf trail Hk Hd Hc Hl H1 H2 Ho. unfold inspect_file.
+    assert (Hb : bytes_ok d = true) by (apply der_of_kind_parts in Hd; tauto).
+    rewrite (inspect_b64 L pem_blocks sniff_other parse_other table n1 k d e w crlf trail)
+      by auto using routes_table_ok_now, oracle_says_no, b64_text_not_uuid.
+    rewrite (inspect_der L pem_blocks sniff_other parse_other table n2 k d)
+      by eauto using routes_table_ok_now, oracle_says_no, der_not_uuid.
+    reflexivity.
+  Qed.
+
+  (* raw DER of a well-formed object under a neutral name is described by its kind's parser
+     (the generic dump is used only if that description is literally "unknown ASN.1 data") *)
+  Theorem der_described_by_kind : forall n k d, (k <= 6)%nat ->
+    der_of_kind k d = true -> cert_oracle_ok L k d = true ->
+    reserved_in table n = false -> uuid_oracle_ok sniff_other ->
+    forall i, parse_kind L k d = Ok i -> i_desc i <> i_desc unknown_asn1 ->
+    inspect' n d = Ok i.
+  Proof.
+    intros n k d Hk Hd Hc Hr Ho i Hi Hn. unfold inspect_file.
+    rewrite (inspect_der L pem_blocks sniff_other parse_other table n k d)
+      by eauto using routes_table_ok_now, oracle_says_no, der_not_uuid.
+    unfold asn1_file. rewrite (trial_order_thm L k d Hk Hd Hc), Hi.
+    destruct (bytes_eqb (i_desc i) (i_desc unknown_asn1)) eqn:E; [|reflexivity].
+    apply bytes_eqb_eq in E. contradiction.
+  Qed.
+
+  Theorem pem_surrounded_now : forall name k d crlf pre post i, (k <= 6)%nat ->
+    der_of_kind k d = true -> cert_oracle_ok L k d = true ->
+    let text := pem_text (label_of k) d crlf pre post in
+    pem_blocks text = [(label_of k, d)] ->
+    reserved_in table name = false ->
+    forallb (fun r => negb (matches_magic r text)) table = true ->
+    sniff_other (bs "IsUUID") text = false -> sniff_other (bs "IsJWT") text = false ->
+    is_asn1 text = false -> is_b64_asn1 text = false -> is_mixed_pem text = true ->
+    route_der L d = Ok i ->
+    inspect' name text = Ok i.
+  Proof.
+    intros name k d crlf pre post i Hk Hd Hc text Hb Hr Hm Hu Hj Ha H64 Hx Hi. unfold inspect_file.
+    apply inspect_pem_surrounded_sniffers; auto using surrounded_table_ok_now, patterns_exact_now.
+    rewrite <- Hi. now apply pem_eq_der.
+  Qed.
+End Combined.
+
+(* non-vacuity of the hypotheses of [pem_surrounded_now] *)
+Example surrounded_example :
+  let text := pem_text (label_of 4) d_sec1 true (bs "Bag Attributes: none" ++ [13; 10]) (bs "# end") in
+  reserved_in table (bs "dir/bundle.pem") = false /\
+  forallb (fun r => negb (matches_magic r text)) table = true /\
+  is_asn1 text = false /\ is_b64_asn1 text = false /\ is_mixed_pem text = true.
+Proof. vm_compute. auto. Qed.
+
+(* ====================================================================== *)
+(* J. with the model of encoding/pem.Decode in place of the block oracle   *)
+(* ====================================================================== *)
+
+Lemma der_nonempty : forall k d, der_of_kind k d = true -> d <> [].
+Proof.
+  intros k d H. apply der_of_kind_parts in H as (_ & Hs & _). destruct d; [discriminate|congruence].
+Qed.
+
+Lemma framing : forall k d crlf pre post, der_of_kind k d = true ->
+  index_of pem_begin (pre ++ pem_begin) = Some (length pre) -> index_of pem_begin post = None ->
+  pem_blocks_of (pem_text (label_of k) d crlf pre post) = [(label_of k, d)].
+Proof.
+  intros k d crlf pre post Hd Hpre Hpost.
+  apply Proofs.Pem.pem_blocks_of_pem_text; auto using Proofs.Pem.label_of_no_lf.
+  - apply der_of_kind_parts in Hd. tauto.
+  - eapply der_nonempty; eauto.
+Qed.
+
+Section WithPemModel.
+  Variable L : lib.
+  Variable sniff_other : bytes -> bytes -> bool.
+  Variable parse_other : bytes -> bytes -> result info.
+  Notation inspect' := (inspect_file L pem_blocks_of sniff_other parse_other).
+
+  Theorem pem_eq_der_model : forall k d crlf pre post, (k <= 6)%nat ->
+    der_of_kind k d = true -> cert_oracle_ok L k d = true ->
+    index_of pem_begin (pre ++ pem_begin) = Some (length pre) -> index_of pem_begin post = None ->
+    route_pem L pem_blocks_of (pem_text (label_of k) d crlf pre post) = route_der L d.
+  Proof. intros. apply pem_eq_der; auto using framing. Qed.
+
+  Theorem inspect_pem_eq_der_model : forall name k d crlf post, (k <= 6)%nat ->
+    der_of_kind k d = true -> cert_oracle_ok L k d = true ->
+    index_of pem_begin post = None ->
+    inspect' name (pem_text (label_of k) d crlf [] post) = route_der L d.
+  Proof. intros. apply inspect_pem_eq_der; auto. apply framing; auto. Qed.
+
+  Theorem pem_surrounded_model : forall name k d crlf pre post i, (k <= 6)%nat ->
+    der_of_kind k d = true -> cert_oracle_ok L k d = true ->
+    let text := pem_text (label_of k) d crlf pre post in
+    index_of pem_begin (pre ++ pem_begin) = Some (length pre) -> index_of pem_begin post = None ->
+    reserved_in table name = false ->
+    forallb (fun r => negb (matches_magic r text)) table = true ->
+    sniff_other (bs "IsUUID") text = false -> sniff_other (bs "IsJWT") text = false ->
+    is_asn1 text = false -> is_b64_asn1 text = false -> is_mixed_pem text = true ->
+    route_der L d = Ok i ->
+    inspect' name text = Ok i.
+  Proof. intros. apply (pem_surrounded_now L pem_blocks_of sniff_other parse_other name k d crlf pre post); auto. apply framing; auto. Qed.
+End WithPemModel.
+
+Example framing_example :
+  index_of pem_begin ((bs "Bag Attributes: none" ++ [13; 10]) ++ pem_begin) = Some (length (bs "Bag Attributes: none" ++ [13; 10]))
+  /\ index_of pem_begin (bs "# end") = None
+  /\ pem_blocks_of (pem_text (label_of 4) d_sec1 true (bs "Bag Attributes: none" ++ [13; 10]) (bs "# end")) = [(label_of 4, d_sec1)].
+Proof. vm_compute. auto. Qed.
